@@ -1,5 +1,2022 @@
 import Bolt.Model.BTreeInv
+import Bolt.Lemmas.NestedMap
+import Bolt.Lemmas.Node
 namespace Bolt.BTree.RebL
-open Bolt Bolt.BTree
+open Bolt Bolt.BTree Bolt.Node
+
+/-! ### the invariant of the rebalance phase
+
+`inTxN` lets the FIRST child of a node inherit the node's lower bound `lo`: its keys may lie
+below its own separator.  That is what `Put` needs on the leftmost spine (`lo = none`), but
+for a node with `lo = some l` a merge moves this first child into the MIDDLE of the left
+sibling's inodes, where its keys must be `≥` its own separator.  `Bolt.BTree.rebN`
+(in `BTreeInv.lean`) is `inTxN` with that one change: below a bounded node every child (also
+the first) starts at its own separator.  `rbN` is the same predicate with the lower bound of
+the children passed as a flag, which is more convenient when lists of children are cut and
+glued (`rebN_eq_rbN` below). -/
+
+mutual
+def rbN : Bool → Bool → Option Bytes → Option Bytes → N → Bool
+  | root, pmat, lo, hi, .leaf h items =>
+    (!h.unb || h.mat) && (!h.mat || pmat) &&
+    (root || !items.isEmpty || (h.mat && h.unb)) &&
+    sortedKeys (items.map (·.key)) &&
+    items.all (fun i => !i.key.isEmpty && geLo lo i.key && ltHi hi i.key)
+  | _, pmat, lo, hi, .branch h kids =>
+    (!h.unb || h.mat) && (!h.mat || pmat) &&
+    decide (2 ≤ kids.length) && sortedKeys (kids.map (·.1)) &&
+    kids.all (fun p => !p.1.isEmpty && geLo lo p.1 && ltHi hi p.1) &&
+    rbKids h.mat lo.isSome hi kids ((kids.head?.map (fun p => depth p.2)).getD 0)
+/-- `bd`: the node is bounded below (`lo.isSome`); then the first child starts at its own
+    separator like every other child, otherwise (leftmost spine) it is unbounded below -/
+def rbKids : Bool → Bool → Option Bytes → List (Bytes × N) → Nat → Bool
+  | _, _, _, [], _ => true
+  | pmat, bd, hi, (s, c) :: r, d =>
+    (s == (if c.hd.mat then c.hd.key else c.firstKey)) && (depth c == d) &&
+    rbN false pmat (if bd then some s else none) ((r.head?.map (·.1)).orElse (fun _ => hi)) c &&
+    rbKids pmat true hi r d
+end
+
+mutual
+/-- separators were not touched since the tree was read: the first separator of a bounded
+    node is its lower bound.  True of committed trees, kept by `Put`/`Delete`. -/
+def tightN : Option Bytes → N → Bool
+  | _, .leaf _ _ => true
+  | lo, .branch _ kids =>
+    (match lo with | none => true | some l => kids.head?.map (·.1) == some l) && tightKids lo kids
+def tightKids : Option Bytes → List (Bytes × N) → Bool
+  | _, [] => true
+  | lo, (_, c) :: r => tightN lo c && tightKids (r.head?.map (·.1)) r
+end
+
+mutual
+/-- page ids of the nodes with `unbalanced` set -/
+def unbPgids : N → List Nat
+  | .leaf h _ => if h.unb then [h.pgid] else []
+  | .branch h kids => (if h.unb then [h.pgid] else []) ++ unbPgidsKids kids
+def unbPgidsKids : List (Bytes × N) → List Nat
+  | [] => []
+  | (_, c) :: r => unbPgids c ++ unbPgidsKids r
+end
+
+/-! ### Prop-level view of the invariant -/
+
+/-- the key under which a child is filed in its parent -/
+def ckey (c : N) : Bytes := if c.hd.mat then c.hd.key else c.firstKey
+
+def Srt (l : List Bytes) : Prop := l.Pairwise (fun a b => Bytes.lt a b = true)
+
+theorem sortedKeys_iff : ∀ l : List Bytes, sortedKeys l = true ↔ Srt l
+  | [] => by simp [sortedKeys, Srt]
+  | [a] => by simp [sortedKeys, Srt]
+  | a :: b :: r => by
+    have ih := sortedKeys_iff (b :: r)
+    simp only [sortedKeys, Bool.and_eq_true, ih, Srt, List.pairwise_cons]
+    constructor
+    · rintro ⟨h1, h2, h3⟩
+      refine ⟨?_, h2, h3⟩
+      intro x hx
+      rcases List.mem_cons.mp hx with rfl | hx
+      · exact h1
+      · exact Bytes.lt_trans h1 (h2 x hx)
+    · rintro ⟨h1, h2, h3⟩
+      exact ⟨h1 b (List.mem_cons_self ..), h2, h3⟩
+
+structure FlagsOk (pmat : Bool) (h : Hd) : Prop where
+  um : h.unb = true → h.mat = true
+  mp : h.mat = true → pmat = true
+
+def Bnd (lo hi : Option Bytes) (k : Bytes) : Prop := k ≠ [] ∧ geLo lo k = true ∧ ltHi hi k = true
+
+structure LeafOk (root pmat : Bool) (lo hi : Option Bytes) (h : Hd) (items : List Item) : Prop where
+  fl : FlagsOk pmat h
+  ne : root = true ∨ items ≠ [] ∨ (h.mat = true ∧ h.unb = true)
+  srt : Srt (items.map (·.key))
+  bnd : ∀ i ∈ items, Bnd lo hi i.key
+
+structure BranchOk (mk : Nat) (pmat : Bool) (lo hi : Option Bytes) (h : Hd) (kids : List (Bytes × N)) : Prop where
+  fl : FlagsOk pmat h
+  len : mk ≤ kids.length
+  srt : Srt (kids.map (·.1))
+  bnd : ∀ p ∈ kids, Bnd lo hi p.1
+  kids : ∃ d, rbKids h.mat lo.isSome hi kids d = true
+
+theorem flagsOk_iff (pmat : Bool) (h : Hd) :
+    ((!h.unb || h.mat) = true ∧ (!h.mat || pmat) = true) ↔ FlagsOk pmat h := by
+  constructor
+  · intro hh
+    simp only [Bool.or_eq_true, Bool.not_eq_true'] at hh
+    exact ⟨fun hu => by rcases hh.1 with h1 | h1 <;> simp_all, fun hm => by rcases hh.2 with h1 | h1 <;> simp_all⟩
+  · rintro ⟨h1, h2⟩
+    cases hu : h.unb <;> cases hm : h.mat <;> cases pmat <;> simp_all
+
+theorem bnd_iff (lo hi : Option Bytes) (k : Bytes) :
+    (((!k.isEmpty) = true ∧ geLo lo k = true) ∧ ltHi hi k = true) ↔ Bnd lo hi k := by
+  unfold Bnd
+  cases k <;> simp
+
+theorem rbN_leaf (root pmat : Bool) (lo hi : Option Bytes) (h : Hd) (items : List Item) :
+    rbN root pmat lo hi (.leaf h items) = true ↔ LeafOk root pmat lo hi h items := by
+  rw [rbN]
+  simp only [Bool.and_eq_true, flagsOk_iff, sortedKeys_iff, List.all_eq_true, bnd_iff]
+  constructor
+  · rintro ⟨⟨⟨h1, h2⟩, h3⟩, h4⟩
+    refine ⟨h1, ?_, h3, h4⟩
+    cases root <;> cases items <;> simp_all
+  · rintro ⟨h1, h2, h3, h4⟩
+    refine ⟨⟨⟨h1, ?_⟩, h3⟩, h4⟩
+    cases root <;> cases items <;> simp_all
+
+theorem rbKids_cons (pmat bd : Bool) (hi : Option Bytes) (s : Bytes) (c : N) (r : List (Bytes × N)) (d : Nat) :
+    rbKids pmat bd hi ((s, c) :: r) d = true ↔
+      s = ckey c ∧ depth c = d ∧
+      rbN false pmat (if bd then some s else none) ((r.head?.map (·.1)).orElse (fun _ => hi)) c = true ∧
+      rbKids pmat true hi r d = true := by
+  rw [rbKids]
+  simp only [Bool.and_eq_true, beq_iff_eq, ckey, and_assoc]
+
+theorem rbKids_nil (pmat bd : Bool) (hi : Option Bytes) (d : Nat) : rbKids pmat bd hi [] d = true := by
+  rw [rbKids]
+
+theorem rbN_branch (root pmat : Bool) (lo hi : Option Bytes) (h : Hd) (kids : List (Bytes × N)) :
+    rbN root pmat lo hi (.branch h kids) = true ↔ BranchOk 2 pmat lo hi h kids := by
+  rw [rbN]
+  simp only [Bool.and_eq_true, flagsOk_iff, sortedKeys_iff, List.all_eq_true, bnd_iff, decide_eq_true_eq]
+  constructor
+  · rintro ⟨⟨⟨⟨h1, h2⟩, h3⟩, h4⟩, h5⟩
+    exact ⟨h1, h2, h3, h4, _, h5⟩
+  · rintro ⟨h1, h2, h3, h4, d, h5⟩
+    refine ⟨⟨⟨⟨h1, h2⟩, h3⟩, h4⟩, ?_⟩
+    cases kids with
+    | nil => simp at h2
+    | cons x r =>
+      obtain ⟨s, c⟩ := x
+      have := ((rbKids_cons ..).mp h5).2.1
+      simpa [this] using h5
+
+
+/-! ### bounds -/
+
+theorem ltHi_none (k : Bytes) : ltHi none k = true := rfl
+theorem geLo_none (k : Bytes) : geLo none k = true := rfl
+theorem ltHi_some (h k : Bytes) : ltHi (some h) k = Bytes.lt k h := rfl
+theorem geLo_some (l k : Bytes) : geLo (some l) k = !Bytes.lt k l := rfl
+
+/-- `a ≤ b` in byte order -/
+def Ble (a b : Bytes) : Prop := Bytes.lt b a = false
+
+theorem lt_of_lt_of_ble {a b c : Bytes} (h1 : Bytes.lt a b = true) (h2 : Ble b c) : Bytes.lt a c = true := by
+  by_cases hbc : b = c
+  · subst hbc; exact h1
+  · exact Bytes.lt_trans h1 (Bytes.lt_total h2 (fun h => hbc h.symm))
+
+theorem lt_of_ble_of_lt {a b c : Bytes} (h1 : Ble a b) (h2 : Bytes.lt b c = true) : Bytes.lt a c = true := by
+  by_cases hab : a = b
+  · subst hab; exact h2
+  · exact Bytes.lt_trans (Bytes.lt_total h1 (fun h => hab h.symm)) h2
+
+theorem ble_of_lt {a b : Bytes} (h : Bytes.lt a b = true) : Ble a b := Bytes.lt_asymm h
+
+theorem ble_refl (a : Bytes) : Ble a a := Bytes.lt_irrefl a
+
+theorem ble_trans {a b c : Bytes} (h1 : Ble a b) (h2 : Ble b c) : Ble a c := by
+  unfold Ble
+  cases h : Bytes.lt c a with
+  | false => rfl
+  | true =>
+    have := lt_of_lt_of_ble h h1
+    have := lt_of_lt_of_ble this h2
+    rw [Bytes.lt_irrefl] at this; exact this.symm
+
+def HiLe (hi hi' : Option Bytes) : Prop := ∀ k, ltHi hi k = true → ltHi hi' k = true
+
+theorem HiLe.refl (hi : Option Bytes) : HiLe hi hi := fun _ h => h
+theorem HiLe.none (hi : Option Bytes) : HiLe hi none := fun _ _ => rfl
+theorem HiLe.of_ble {a b : Bytes} (h : Ble a b) : HiLe (some a) (some b) := fun _ hk => lt_of_lt_of_ble hk h
+theorem HiLe.of_ltHi {a : Bytes} {hi : Option Bytes} (h : ltHi hi a = true) : HiLe (some a) hi := by
+  intro k hk
+  cases hi with
+  | none => rfl
+  | some b => exact Bytes.lt_trans hk h
+
+theorem Bnd.hi {lo hi hi' : Option Bytes} {k : Bytes} (hh : HiLe hi hi') (h : Bnd lo hi k) : Bnd lo hi' k :=
+  ⟨h.1, h.2.1, hh _ h.2.2⟩
+
+theorem Bnd.lo_none {lo hi : Option Bytes} {k : Bytes} (h : Bnd lo hi k) : Bnd none hi k :=
+  ⟨h.1, rfl, h.2.2⟩
+
+/-! ### monotonicity of the invariant in its parameters -/
+
+theorem FlagsOk.pmat_true {pmat : Bool} {h : Hd} (hf : FlagsOk pmat h) : FlagsOk true h := ⟨hf.um, fun _ => rfl⟩
+
+mutual
+theorem rbN_hi : ∀ (n : N) (root pmat : Bool) (lo hi hi' : Option Bytes), HiLe hi hi' →
+    rbN root pmat lo hi n = true → rbN root pmat lo hi' n = true
+  | .leaf h items, root, pmat, lo, hi, hi', hh, hn => by
+    rw [rbN_leaf] at hn ⊢
+    exact ⟨hn.fl, hn.ne, hn.srt, fun i hi => (hn.bnd i hi).hi hh⟩
+  | .branch h kids, root, pmat, lo, hi, hi', hh, hn => by
+    rw [rbN_branch] at hn ⊢
+    obtain ⟨d, hd⟩ := hn.kids
+    exact ⟨hn.fl, hn.len, hn.srt, fun i hi => (hn.bnd i hi).hi hh, d, rbKids_hi kids _ _ _ _ _ hh hd⟩
+theorem rbKids_hi : ∀ (kids : List (Bytes × N)) (pmat bd : Bool) (hi hi' : Option Bytes) (d : Nat), HiLe hi hi' →
+    rbKids pmat bd hi kids d = true → rbKids pmat bd hi' kids d = true
+  | [], _, _, _, _, _, _, _ => rbKids_nil ..
+  | (s, c) :: r, pmat, bd, hi, hi', d, hh, hk => by
+    rw [rbKids_cons] at hk ⊢
+    refine ⟨hk.1, hk.2.1, ?_, rbKids_hi r _ _ _ _ _ hh hk.2.2.2⟩
+    cases r with
+    | nil => exact rbN_hi c _ _ _ _ _ hh hk.2.2.1
+    | cons x r' => exact hk.2.2.1
+end
+
+mutual
+theorem rbN_lo_none : ∀ (n : N) (root pmat : Bool) (l : Bytes) (hi : Option Bytes),
+    rbN root pmat (some l) hi n = true → rbN root pmat none hi n = true
+  | .leaf h items, root, pmat, l, hi, hn => by
+    rw [rbN_leaf] at hn ⊢
+    exact ⟨hn.fl, hn.ne, hn.srt, fun i hi => (hn.bnd i hi).lo_none⟩
+  | .branch h kids, root, pmat, l, hi, hn => by
+    rw [rbN_branch] at hn ⊢
+    obtain ⟨d, hd⟩ := hn.kids
+    exact ⟨hn.fl, hn.len, hn.srt, fun i hi => (hn.bnd i hi).lo_none, d, rbKids_bd_false kids _ _ _ hd⟩
+theorem rbKids_bd_false : ∀ (kids : List (Bytes × N)) (pmat : Bool) (hi : Option Bytes) (d : Nat),
+    rbKids pmat true hi kids d = true → rbKids pmat false hi kids d = true
+  | [], _, _, _, _ => rbKids_nil ..
+  | (s, c) :: r, pmat, hi, d, hk => by
+    rw [rbKids_cons] at hk ⊢
+    exact ⟨hk.1, hk.2.1, rbN_lo_none c _ _ _ _ hk.2.2.1, hk.2.2.2⟩
+end
+
+theorem rbKids_bd (bd : Bool) {kids : List (Bytes × N)} {pmat : Bool} {hi : Option Bytes} {d : Nat}
+    (h : rbKids pmat true hi kids d = true) : rbKids pmat bd hi kids d = true := by
+  cases bd
+  · exact rbKids_bd_false _ _ _ _ h
+  · exact h
+
+theorem rbN_pmat_true {n : N} {root pmat : Bool} {lo hi : Option Bytes}
+    (h : rbN root pmat lo hi n = true) : rbN root true lo hi n = true := by
+  cases n with
+  | leaf hd items => rw [rbN_leaf] at h ⊢; exact ⟨h.fl.pmat_true, h.ne, h.srt, h.bnd⟩
+  | branch hd kids => rw [rbN_branch] at h ⊢; exact ⟨h.fl.pmat_true, h.len, h.srt, h.bnd, h.kids⟩
+
+theorem rbKids_pmat_true : ∀ {kids : List (Bytes × N)} {pmat bd : Bool} {hi : Option Bytes} {d : Nat},
+    rbKids pmat bd hi kids d = true → rbKids true bd hi kids d = true
+  | [], _, _, _, _, _ => rbKids_nil ..
+  | (s, c) :: r, pmat, bd, hi, d, hk => by
+    rw [rbKids_cons] at hk ⊢
+    exact ⟨hk.1, hk.2.1, rbN_pmat_true hk.2.2.1, rbKids_pmat_true hk.2.2.2⟩
+
+/-! ### lists of children -/
+
+/-- upper bound of the last child of `r`'s left neighbour -/
+def hiOf (r : List (Bytes × N)) (hi : Option Bytes) : Option Bytes := (r.head?.map (·.1)).orElse (fun _ => hi)
+
+@[local simp] theorem hiOf_nil (hi : Option Bytes) : hiOf [] hi = hi := rfl
+@[local simp] theorem hiOf_cons (s : Bytes) (c : N) (r : List (Bytes × N)) (hi : Option Bytes) : hiOf ((s, c) :: r) hi = some s := rfl
+
+theorem hiOf_append (a b : List (Bytes × N)) (hi : Option Bytes) : hiOf (a ++ b) hi = hiOf a (hiOf b hi) := by
+  cases a with
+  | nil => rfl
+  | cons x a' => rfl
+
+theorem rbKids_cons' (pmat bd : Bool) (hi : Option Bytes) (s : Bytes) (c : N) (r : List (Bytes × N)) (d : Nat) :
+    rbKids pmat bd hi ((s, c) :: r) d = true ↔
+      s = ckey c ∧ depth c = d ∧
+      rbN false pmat (if bd then some s else none) (hiOf r hi) c = true ∧
+      rbKids pmat true hi r d = true := rbKids_cons ..
+
+theorem rbKids_append : ∀ (a b : List (Bytes × N)) (pmat bd : Bool) (hi : Option Bytes) (d : Nat),
+    rbKids pmat bd hi (a ++ b) d = true ↔
+      rbKids pmat bd (hiOf b hi) a d = true ∧ rbKids pmat (bd || !a.isEmpty) hi b d = true
+  | [], b, pmat, bd, hi, d => by simp [rbKids_nil]
+  | (s, c) :: a', b, pmat, bd, hi, d => by
+    rw [List.cons_append, rbKids_cons', rbKids_cons', rbKids_append a' b, hiOf_append]
+    simp [and_assoc]
+
+theorem rbKids_depth : ∀ {kids : List (Bytes × N)} {pmat bd : Bool} {hi : Option Bytes} {d : Nat},
+    rbKids pmat bd hi kids d = true → ∀ p ∈ kids, depth p.2 = d
+  | [], _, _, _, _, _ => by simp
+  | (s, c) :: r, pmat, bd, hi, d, hk => by
+    rw [rbKids_cons] at hk
+    intro p hp
+    rcases List.mem_cons.mp hp with rfl | hp
+    · exact hk.2.1
+    · exact rbKids_depth hk.2.2.2 p hp
+
+theorem rbKids_ckey : ∀ {kids : List (Bytes × N)} {pmat bd : Bool} {hi : Option Bytes} {d : Nat},
+    rbKids pmat bd hi kids d = true → ∀ p ∈ kids, p.1 = ckey p.2
+  | [], _, _, _, _, _ => by simp
+  | (s, c) :: r, pmat, bd, hi, d, hk => by
+    rw [rbKids_cons] at hk
+    intro p hp
+    rcases List.mem_cons.mp hp with rfl | hp
+    · exact hk.1
+    · exact rbKids_ckey hk.2.2.2 p hp
+
+theorem depthKids_eq : ∀ {kids : List (Bytes × N)} {d : Nat}, (∀ p ∈ kids, depth p.2 = d) → kids ≠ [] →
+    depthKids kids = d
+  | [], _, _, hne => absurd rfl hne
+  | [(s, c)], d, h, _ => by
+    have := h (s, c) (List.mem_cons_self ..)
+    simp only [depthKids] at *
+    omega
+  | (s, c) :: x :: r, d, h, _ => by
+    have h1 := h (s, c) (List.mem_cons_self ..)
+    have h2 := depthKids_eq (kids := x :: r) (d := d) (fun p hp => h p (List.mem_cons_of_mem _ hp)) (by simp)
+    obtain ⟨s', c'⟩ := x
+    rw [depthKids, h2]
+    simp only at h1
+    omega
+
+theorem flattenKids_append : ∀ (a b : List (Bytes × N)), flattenKids (a ++ b) = flattenKids a ++ flattenKids b
+  | [], b => by simp [flattenKids]
+  | (s, c) :: a', b => by simp [flattenKids, flattenKids_append a' b]
+
+theorem flattenKids_cons (s : Bytes) (c : N) (r : List (Bytes × N)) : flattenKids ((s, c) :: r) = flatten c ++ flattenKids r := by
+  rw [flattenKids]
+
+theorem depth_pos : ∀ n : N, 1 ≤ depth n
+  | .leaf _ _ => by simp [depth]
+  | .branch _ _ => by simp [depth]
+
+theorem depth_leaf (h : Hd) (items : List Item) : depth (.leaf h items) = 1 := by rw [depth]
+theorem depth_branch (h : Hd) (kids : List (Bytes × N)) : depth (.branch h kids) = 1 + depthKids kids := by rw [depth]
+
+/-! ### `lowerBound` finds a separator at its own index -/
+
+theorem lowerBound_mid : ∀ (pre : List Bytes) (s : Bytes) (post : List Bytes), Srt (pre ++ s :: post) →
+    lowerBound (pre ++ s :: post) s = pre.length
+  | [], s, post, _ => by
+    rw [List.nil_append, lowerBound_cons, Bytes.lt_irrefl]; simp
+  | a :: pre, s, post, h => by
+    have h' : Srt (pre ++ s :: post) := (List.pairwise_cons.mp h).2
+    have ha : Bytes.lt a s = true := (List.pairwise_cons.mp h).1 s (by simp)
+    rw [List.cons_append, lowerBound_cons, ha, lowerBound_mid pre s post h']; simp
+
+/-! ### headers -/
+
+/-- `node.unbalanced = false` -/
+def clr (n : N) : N := n.setHd { n.hd with unb := false }
+
+/-- the header after `Bucket.node()` -/
+def mhd (n : N) : Hd := if n.hd.mat then n.hd else { pgid := n.hd.pgid, mat := true, unb := false, key := n.firstKey }
+
+theorem materialize_eq (n : N) : materialize n = n.setHd (mhd n) := by
+  unfold materialize mhd
+  by_cases h : n.hd.mat = true
+  · simp only [h, if_true]; cases n <;> rfl
+  · simp only [h]; rfl
+
+@[local simp] theorem setHd_hd (n : N) (h : Hd) : (n.setHd h).hd = h := by cases n <;> rfl
+@[local simp] theorem flatten_setHd (n : N) (h : Hd) : flatten (n.setHd h) = flatten n := by
+  cases n <;> simp [N.setHd, flatten]
+@[local simp] theorem depth_setHd (n : N) (h : Hd) : depth (n.setHd h) = depth n := by
+  cases n <;> simp [N.setHd, depth]
+@[local simp] theorem count_setHd (n : N) (h : Hd) : (n.setHd h).count = n.count := by cases n <;> rfl
+@[local simp] theorem isLeaf_setHd (n : N) (h : Hd) : (n.setHd h).isLeaf = n.isLeaf := by cases n <;> rfl
+@[local simp] theorem firstKey_setHd (n : N) (h : Hd) : (n.setHd h).firstKey = n.firstKey := by cases n <;> rfl
+@[local simp] theorem setHd_leaf (h h' : Hd) (items : List Item) : (N.leaf h items).setHd h' = .leaf h' items := rfl
+@[local simp] theorem setHd_branch (h h' : Hd) (kids : List (Bytes × N)) : (N.branch h kids).setHd h' = .branch h' kids := rfl
+@[local simp] theorem hd_leaf (h : Hd) (items : List Item) : (N.leaf h items).hd = h := rfl
+@[local simp] theorem hd_branch (h : Hd) (kids : List (Bytes × N)) : (N.branch h kids).hd = h := rfl
+
+theorem mhd_mat (n : N) : (mhd n).mat = true := by
+  unfold mhd; by_cases h : n.hd.mat = true <;> simp [h]
+theorem mhd_key (n : N) : (mhd n).key = ckey n := by
+  unfold mhd ckey; by_cases h : n.hd.mat = true <;> simp [h]
+theorem mhd_pgid (n : N) : (mhd n).pgid = n.hd.pgid := by
+  unfold mhd; by_cases h : n.hd.mat = true <;> simp [h]
+theorem mhd_flags {pmat : Bool} (n : N) (h : FlagsOk pmat n.hd) : FlagsOk true (mhd n) := by
+  unfold mhd; by_cases hm : n.hd.mat = true
+  · simp only [hm, if_true]; exact h.pmat_true
+  · simp only [hm]; exact ⟨fun h => by simp at h, fun _ => rfl⟩
+
+/-! ### `rebalChild` without indices -/
+
+def childS (th : Nat) (h : Hd) (pre : List (Bytes × N)) (s : Bytes) (n0 : N) (post : List (Bytes × N)) :
+    Option (N × Bool) :=
+  if n0.hd.unb = false then some (.branch h (pre ++ (s, n0) :: post), false) else
+  let n := clr n0
+  if n.size > th ∧ n.count > n.minKeys then some (.branch h (pre ++ (s, n) :: post), false) else
+  let keys := pre.map (·.1) ++ s :: post.map (·.1)
+  if n.count = 0 then
+    if lowerBound keys n.hd.key = pre.length ∧ s = n.hd.key then
+      some (.branch { h with unb := true } (pre ++ post), true)
+    else none
+  else
+    if pre.length + post.length = 0 then none else
+    if lowerBound keys n.hd.key ≠ pre.length then none else
+    match pre.getLast? with
+    | none =>
+      match post with
+      | [] => none
+      | (sr, r0) :: post' =>
+        if lowerBound keys (materialize r0).hd.key = 1 ∧ sr = (materialize r0).hd.key then
+          (appendInodes n (materialize r0)).map (fun m => (.branch { h with unb := true } ((s, m) :: post'), true))
+        else none
+    | some (sl, l0) =>
+      if s = n.hd.key then
+        (appendInodes (materialize l0) n).map (fun m =>
+          (.branch { h with unb := true } (pre.dropLast ++ (sl, m) :: post), true))
+      else none
+
+theorem eraseIdx_mid {α} : ∀ (pre : List α) (a b : α) (post : List α),
+    (pre ++ a :: b :: post).eraseIdx (pre.length + 1) = pre ++ a :: post
+  | [], a, b, post => rfl
+  | x :: pre, a, b, post => by simp [eraseIdx_mid pre a b post]
+
+theorem drop_mid {α} : ∀ (pre : List α) (a b : α) (post : List α),
+    (pre ++ a :: b :: post).drop (pre.length + 1 + 1) = post
+  | [], a, b, post => rfl
+  | x :: pre, a, b, post => by simp [drop_mid pre a b post]
+
+theorem rebalChild_eq (th : Nat) (h : Hd) (pre : List (Bytes × N)) (s : Bytes) (n0 : N) (post : List (Bytes × N)) :
+    rebalChild th h (pre ++ (s, n0) :: post) pre.length = childS th h pre s n0 post := by
+  unfold rebalChild childS
+  rcases List.eq_nil_or_concat pre with rfl | ⟨pre', x, rfl⟩
+  · cases post <;> simp [clr]
+  · obtain ⟨sl, l0⟩ := x
+    have hlen : ¬ (pre'.length + (post.length + 1 + 1) ≤ 1) := by omega
+    simp [clr, eraseIdx_mid, drop_mid, hlen]
+
+/-! ### `rbN` is the shared `rebN` -/
+
+mutual
+theorem rebN_eq_rbN : ∀ (n : N) (root pmat : Bool) (lo hi : Option Bytes),
+    rebN root pmat lo hi n = rbN root pmat lo hi n
+  | .leaf h items, root, pmat, lo, hi => by rw [rebN, rbN]
+  | .branch h kids, root, pmat, lo, hi => by rw [rebN, rbN, rebKids_eq_rbKids kids]
+theorem rebKids_eq_rbKids : ∀ (kids : List (Bytes × N)) (pmat : Bool) (lo hi : Option Bytes) (d : Nat),
+    rebKids pmat lo hi kids d = rbKids pmat lo.isSome hi kids d
+  | [], _, _, _, _ => by rw [rebKids, rbKids]
+  | (s, c) :: r, pmat, lo, hi, d => by
+    rw [rebKids, rbKids, rebN_eq_rbN c, rebKids_eq_rbKids r]
+    have h1 : lo.map (fun _ => s) = if lo.isSome = true then some s else none := by cases lo <;> rfl
+    have h2 : rbKids pmat (r.head?.map (·.1)).isSome hi r d = rbKids pmat true hi r d := by
+      cases r with
+      | nil => rw [rbKids, rbKids]
+      | cons x r' => rfl
+    rw [h1, h2]
+end
+
+theorem inTxR_iff (t : N) : InTxR t ↔ rbN true true none none t = true := by
+  unfold InTxR; rw [rebN_eq_rbN]
+
+/-! ### the transient state of a node whose own `rebalance()` is pending -/
+
+/-- the invariant of a node with the requirement on the number of children relaxed to `mk` -/
+def Wk (mk : Nat) (root pmat : Bool) (lo hi : Option Bytes) : N → Prop
+  | .leaf h items => LeafOk root pmat lo hi h items
+  | .branch h kids => BranchOk mk pmat lo hi h kids
+
+theorem rbN_iff_Wk {root pmat : Bool} {lo hi : Option Bytes} {n : N} :
+    rbN root pmat lo hi n = true ↔ Wk 2 root pmat lo hi n := by
+  cases n with
+  | leaf h items => exact rbN_leaf ..
+  | branch h kids => exact rbN_branch ..
+
+/-- a node that lost a child in a merge below it: a branch may have a single child, but then
+    it is flagged `unbalanced` (its `rebalance()` is the next call) -/
+def W (root pmat : Bool) (lo hi : Option Bytes) (n : N) : Prop :=
+  Wk 1 root pmat lo hi n ∧ (rbN root pmat lo hi n = true ∨ n.hd.unb = true)
+
+theorem Wk.mono {mk mk' : Nat} {root pmat : Bool} {lo hi : Option Bytes} {n : N} (hle : mk' ≤ mk)
+    (h : Wk mk root pmat lo hi n) : Wk mk' root pmat lo hi n := by
+  cases n with
+  | leaf hd items => exact h
+  | branch hd kids => exact ⟨h.fl, Nat.le_trans hle h.len, h.srt, h.bnd, h.kids⟩
+
+theorem W_of_rbN {root pmat : Bool} {lo hi : Option Bytes} {n : N} (h : rbN root pmat lo hi n = true) :
+    W root pmat lo hi n := ⟨(rbN_iff_Wk.mp h).mono (by omega), Or.inl h⟩
+
+theorem Bnd.widen_hi {lo hi : Option Bytes} {sep k : Bytes} (h1 : ltHi hi sep = true) (h : Bnd lo (some sep) k) :
+    Bnd lo hi k := h.hi (HiLe.of_ltHi h1)
+
+theorem geLo_of_ble {lo : Option Bytes} {a b : Bytes} (h : geLo lo a = true) (hab : Ble a b) : geLo lo b = true := by
+  cases lo with
+  | none => rfl
+  | some l =>
+    rw [geLo_some] at h ⊢
+    cases hbl : Bytes.lt b l with
+    | false => rfl
+    | true =>
+      have := lt_of_ble_of_lt hab hbl
+      rw [this] at h; exact h
+
+theorem Bnd.ble_sep {hi : Option Bytes} {sep k : Bytes} (h : Bnd (some sep) hi k) : Ble sep k := by
+  have := h.2.1
+  rw [geLo_some] at this
+  unfold Ble
+  cases hk : Bytes.lt k sep with
+  | false => rfl
+  | true => rw [hk] at this; exact absurd this (by decide)
+
+theorem Bnd.lt_sep {lo : Option Bytes} {sep k : Bytes} (h : Bnd lo (some sep) k) : Bytes.lt k sep = true := h.2.2
+
+theorem Bnd.widen_lo {lo hi : Option Bytes} {sep k : Bytes} (h2 : geLo lo sep = true) (h : Bnd (some sep) hi k) :
+    Bnd lo hi k := ⟨h.1, geLo_of_ble h2 h.ble_sep, h.2.2⟩
+
+theorem srt_append {a b : List Bytes} {sep : Bytes} (ha : Srt a) (hb : Srt b)
+    (h1 : ∀ x ∈ a, Bytes.lt x sep = true) (h2 : ∀ y ∈ b, Ble sep y) : Srt (a ++ b) := by
+  unfold Srt
+  rw [List.pairwise_append]
+  exact ⟨ha, hb, fun x hx y hy => lt_of_lt_of_ble (h1 x hx) (h2 y hy)⟩
+
+theorem depthKids_pos : ∀ {kids : List (Bytes × N)}, kids ≠ [] → 1 ≤ depthKids kids
+  | [], h => absurd rfl h
+  | (s, c) :: r, _ => by
+    rw [depthKids]
+    have := depth_pos c
+    omega
+
+theorem depthKids_append : ∀ (a b : List (Bytes × N)), depthKids (a ++ b) = max (depthKids a) (depthKids b)
+  | [], b => by simp [depthKids]
+  | (s, c) :: a', b => by
+    simp only [List.cons_append, depthKids, depthKids_append a' b]
+    omega
+
+theorem merge_ok {l r : N} {lo hi : Option Bytes} {sep : Bytes}
+    (hl : Wk 1 true true lo (some sep) l) (hr : Wk 1 true true (some sep) hi r)
+    (hm : l.hd.mat = true) (hd : depth l = depth r) (hne : l.count ≠ 0 ∨ r.count ≠ 0)
+    (h1 : ltHi hi sep = true) (h2 : geLo lo sep = true) :
+    ∃ m, appendInodes l r = some m ∧ m.hd = l.hd ∧ flatten m = flatten l ++ flatten r ∧
+      depth m = depth l ∧ rbN false true lo hi m = true := by
+  cases l with
+  | leaf h a =>
+    cases r with
+    | leaf h' b =>
+      refine ⟨.leaf h (a ++ b), rfl, rfl, by simp [flatten], by simp [depth], ?_⟩
+      rw [rbN_leaf]
+      have hl : LeafOk true true lo (some sep) h a := hl
+      have hr : LeafOk true true (some sep) hi h' b := hr
+      refine ⟨hl.fl, ?_, ?_, ?_⟩
+      · right; left
+        simp only [N.count] at hne
+        cases a <;> cases b <;> simp_all
+      · rw [List.map_append]
+        refine srt_append (sep := sep) hl.srt hr.srt ?_ ?_
+        · intro x hx
+          obtain ⟨i, hi, rfl⟩ := List.mem_map.mp hx
+          exact (hl.bnd i hi).lt_sep
+        · intro y hy
+          obtain ⟨i, hi, rfl⟩ := List.mem_map.mp hy
+          exact (hr.bnd i hi).ble_sep
+      · intro i hi
+        rcases List.mem_append.mp hi with hi | hi
+        · exact (hl.bnd i hi).widen_hi h1
+        · exact (hr.bnd i hi).widen_lo h2
+    | branch h' b =>
+      have hr : BranchOk 1 true (some sep) hi h' b := hr
+      have : b ≠ [] := by intro hb; have := hr.len; simp [hb] at this
+      have := depthKids_pos this
+      simp only [depth] at hd
+      omega
+  | branch h a =>
+    cases r with
+    | leaf h' b =>
+      have hl : BranchOk 1 true lo (some sep) h a := hl
+      have : a ≠ [] := by intro hb; have := hl.len; simp [hb] at this
+      have := depthKids_pos this
+      simp only [depth] at hd
+      omega
+    | branch h' b =>
+      have hl : BranchOk 1 true lo (some sep) h a := hl
+      have hr : BranchOk 1 true (some sep) hi h' b := hr
+      have hane : a ≠ [] := by intro hb; have := hl.len; simp [hb] at this
+      have hbne : b ≠ [] := by intro hb; have := hr.len; simp [hb] at this
+      obtain ⟨da, hka⟩ := hl.kids
+      obtain ⟨db, hkb⟩ := hr.kids
+      have hda := depthKids_eq (rbKids_depth hka) hane
+      have hdb := depthKids_eq (rbKids_depth hkb) hbne
+      have hdd : da = db := by simp only [depth, hda, hdb] at hd; omega
+      subst hdd
+      refine ⟨.branch h (a ++ b), rfl, rfl, by simp [flatten, flattenKids_append], ?_, ?_⟩
+      · simp only [depth, depthKids_append, hda, hdb]; omega
+      · rw [rbN_branch]
+        refine ⟨hl.fl, ?_, ?_, ?_, da, ?_⟩
+        · have := hl.len; have := hr.len; simp only [List.length_append]; omega
+        · rw [List.map_append]
+          refine srt_append (sep := sep) hl.srt hr.srt ?_ ?_
+          · intro x hx
+            obtain ⟨i, hi, rfl⟩ := List.mem_map.mp hx
+            exact (hl.bnd i hi).lt_sep
+          · intro y hy
+            obtain ⟨i, hi, rfl⟩ := List.mem_map.mp hy
+            exact (hr.bnd i hi).ble_sep
+        · intro i hi
+          rcases List.mem_append.mp hi with hi | hi
+          · exact (hl.bnd i hi).widen_hi h1
+          · exact (hr.bnd i hi).widen_lo h2
+        · rw [rbKids_append]
+          simp only [hd_branch] at hm
+          constructor
+          · refine rbKids_hi _ _ _ _ _ _ ?_ hka
+            cases b with
+            | nil => exact absurd rfl hbne
+            | cons x b' =>
+              obtain ⟨sb, cb⟩ := x
+              exact HiLe.of_ble (hr.bnd (sb, cb) (List.mem_cons_self ..)).ble_sep
+          · have : (lo.isSome || !a.isEmpty) = true := by cases a <;> simp_all
+            rw [this, hm]
+            exact rbKids_pmat_true hkb
+
+/-! ### what a `rebalance()` call keeps of a node as seen from its parent -/
+
+structure Same (n n' : N) : Prop where
+  fl : flatten n' = flatten n
+  dp : depth n' = depth n
+  pg : n'.hd.pgid = n.hd.pgid
+  key : n'.hd.key = n.hd.key
+  mat : n'.hd.mat = n.hd.mat
+  page : n.hd.mat = false → n' = n
+
+theorem Same.refl (n : N) : Same n n := ⟨rfl, rfl, rfl, rfl, rfl, fun _ => rfl⟩
+
+theorem Same.ckey {n n' : N} (h : Same n n') : ckey n' = ckey n := by
+  cases hm : n.hd.mat with
+  | false => rw [h.page hm]
+  | true => unfold RebL.ckey; rw [h.mat, hm, h.key]; simp
+
+theorem BranchOk.bndk {mk : Nat} {pmat : Bool} {lo hi : Option Bytes} {h : Hd} {kids : List (Bytes × N)}
+    (hb : BranchOk mk pmat lo hi h kids) : ∀ k ∈ kids.map (·.1), Bnd lo hi k := by
+  intro k hk
+  obtain ⟨p, hp, rfl⟩ := List.mem_map.mp hk
+  exact hb.bnd p hp
+
+theorem BranchOk.mk' {mk : Nat} {pmat : Bool} {lo hi : Option Bytes} {h : Hd} {kids : List (Bytes × N)}
+    (fl : FlagsOk pmat h) (len : mk ≤ kids.length) (srt : Srt (kids.map (·.1)))
+    (bndk : ∀ k ∈ kids.map (·.1), Bnd lo hi k) (hk : ∃ d, rbKids h.mat lo.isSome hi kids d = true) :
+    BranchOk mk pmat lo hi h kids :=
+  ⟨fl, len, srt, fun p hp => bndk p.1 (List.mem_map_of_mem hp), hk⟩
+
+/-- the facts about the children of a well-formed branch around one child -/
+structure Around (pmat : Bool) (lo hi : Option Bytes) (h : Hd) (pre : List (Bytes × N)) (s : Bytes) (c : N)
+    (post : List (Bytes × N)) (d : Nat) : Prop where
+  fl : FlagsOk pmat h
+  srt : Srt (pre.map (·.1) ++ s :: post.map (·.1))
+  bndk : ∀ k ∈ pre.map (·.1) ++ s :: post.map (·.1), Bnd lo hi k
+  hpre : rbKids h.mat lo.isSome (some s) pre d = true
+  hkey : s = ckey c
+  hdep : depth c = d
+  hc : rbN false h.mat (if (lo.isSome || !pre.isEmpty) = true then some s else none) (hiOf post hi) c = true
+  hpost : rbKids h.mat true hi post d = true
+
+theorem BranchOk.around {mk : Nat} {pmat : Bool} {lo hi : Option Bytes} {h : Hd} {pre post : List (Bytes × N)}
+    {s : Bytes} {c : N} (hP : BranchOk mk pmat lo hi h (pre ++ (s, c) :: post)) :
+    ∃ d, Around pmat lo hi h pre s c post d := by
+  obtain ⟨d, hk⟩ := hP.kids
+  rw [rbKids_append, rbKids_cons'] at hk
+  refine ⟨d, hP.fl, by simpa using hP.srt, by simpa using hP.bndk, hk.1, hk.2.1, hk.2.2.1, hk.2.2.2.1, hk.2.2.2.2⟩
+
+theorem Around.ltHi_next {pmat : Bool} {lo hi : Option Bytes} {h : Hd} {pre post : List (Bytes × N)}
+    {s : Bytes} {c : N} {d : Nat} (ha : Around pmat lo hi h pre s c post d) : ltHi (hiOf post hi) s = true := by
+  cases post with
+  | nil => exact (ha.bndk s (by simp)).2.2
+  | cons x post' =>
+    obtain ⟨sr, r0⟩ := x
+    have := ha.srt
+    unfold Srt at this
+    rw [List.pairwise_append] at this
+    exact (List.pairwise_cons.mp this.2.1).1 sr (by simp)
+
+/-- put a child back -/
+theorem Around.kids {pmat : Bool} {lo hi : Option Bytes} {h : Hd} {pre post : List (Bytes × N)}
+    {s : Bytes} {c c'' : N} {d : Nat} (ha : Around pmat lo hi h pre s c post d)
+    (hkey : ckey c'' = s) (hdp : depth c'' = d)
+    (hN : rbN false h.mat (if (lo.isSome || !pre.isEmpty) = true then some s else none) (hiOf post hi) c'' = true) :
+    rbKids h.mat lo.isSome hi (pre ++ (s, c'') :: post) d = true := by
+  rw [rbKids_append, rbKids_cons']
+  exact ⟨ha.hpre, hkey.symm, hdp, hN, ha.hpost⟩
+
+/-- drop a child -/
+theorem Around.kids_erase {pmat : Bool} {lo hi : Option Bytes} {h : Hd} {pre post : List (Bytes × N)}
+    {s : Bytes} {c : N} {d : Nat} (ha : Around pmat lo hi h pre s c post d) :
+    rbKids h.mat lo.isSome hi (pre ++ post) d = true := by
+  rw [rbKids_append]
+  exact ⟨rbKids_hi _ _ _ _ _ _ (HiLe.of_ltHi ha.ltHi_next) ha.hpre, rbKids_bd _ ha.hpost⟩
+
+theorem srt_sub {a b : List Bytes} (h : a.Sublist b) (hb : Srt b) : Srt a := List.Pairwise.sublist h hb
+
+theorem parent_replace {mk : Nat} {pmat : Bool} {lo hi : Option Bytes} {h : Hd} {pre post : List (Bytes × N)}
+    {s : Bytes} {c c'' : N} (hP : BranchOk mk pmat lo hi h (pre ++ (s, c) :: post))
+    (hkey : ckey c'' = s) (hfl : flatten c'' = flatten c) (hdp : depth c'' = depth c)
+    (hN : rbN false h.mat (if (lo.isSome || !pre.isEmpty) = true then some s else none) (hiOf post hi) c'' = true)
+    (hpage : h.mat = false → c'' = c) :
+    BranchOk mk pmat lo hi h (pre ++ (s, c'') :: post) ∧
+      Same (.branch h (pre ++ (s, c) :: post)) (.branch h (pre ++ (s, c'') :: post)) := by
+  obtain ⟨d, ha⟩ := hP.around
+  constructor
+  · refine BranchOk.mk' hP.fl (by simpa using hP.len) (by simpa using ha.srt) (by simpa using ha.bndk)
+      ⟨d, ha.kids hkey (hdp.trans ha.hdep) hN⟩
+  · refine ⟨?_, ?_, rfl, rfl, rfl, ?_⟩
+    · simp [flatten, flattenKids_append, flattenKids_cons, hfl]
+    · simp only [depth, depthKids_append, depthKids, hdp]
+    · intro hm; rw [hpage hm]
+
+theorem Wk.setHd_mat {mk : Nat} {root pmat : Bool} {lo hi : Option Bytes} {n : N}
+    (h : Wk mk root pmat lo hi n) {h' : Hd} (hf : FlagsOk true h') (hm : h'.mat = true) :
+    Wk mk true true lo hi (n.setHd h') := by
+  cases n with
+  | leaf hd items =>
+    have h : LeafOk root pmat lo hi hd items := h
+    exact (⟨hf, Or.inl rfl, h.srt, h.bnd⟩ : LeafOk true true lo hi h' items)
+  | branch hd kids =>
+    have h : BranchOk mk pmat lo hi hd kids := h
+    obtain ⟨d, hk⟩ := h.kids
+    exact (⟨hf, h.len, h.srt, h.bnd, d, by rw [hm]; exact rbKids_pmat_true hk⟩ : BranchOk mk true lo hi h' kids)
+
+theorem Wk.clr {mk : Nat} {root pmat : Bool} {lo hi : Option Bytes} {n : N}
+    (h : Wk mk root pmat lo hi n) (hm : n.hd.mat = true) : Wk mk true true lo hi (clr n) :=
+  h.setHd_mat ⟨fun h => by simp at h, fun _ => rfl⟩ hm
+
+theorem Wk.materialize {mk : Nat} {root pmat : Bool} {lo hi : Option Bytes} {n : N}
+    (h : Wk mk root pmat lo hi n) : Wk mk true true lo hi (materialize n) := by
+  rw [materialize_eq]
+  refine h.setHd_mat (mhd_flags (pmat := pmat) n ?_) (mhd_mat n)
+  cases n with
+  | leaf hd items => exact (h : LeafOk ..).fl
+  | branch hd kids => exact (h : BranchOk ..).fl
+
+theorem parent_erase {pmat : Bool} {lo hi : Option Bytes} {h : Hd} {pre post : List (Bytes × N)}
+    {s : Bytes} {c : N} (hP : BranchOk 2 pmat lo hi h (pre ++ (s, c) :: post))
+    (hmat : h.mat = true) (hempty : flatten c = []) :
+    W false pmat lo hi (.branch { h with unb := true } (pre ++ post)) ∧
+      Same (.branch h (pre ++ (s, c) :: post)) (.branch { h with unb := true } (pre ++ post)) := by
+  obtain ⟨d, ha⟩ := hP.around
+  have hk := ha.kids_erase
+  have hlen : 1 ≤ (pre ++ post).length := by have := hP.len; simp at this ⊢; omega
+  have hne : pre ++ post ≠ [] := by intro h0; rw [h0] at hlen; simp at hlen
+  refine ⟨⟨?_, Or.inr rfl⟩, ?_⟩
+  · show BranchOk 1 pmat lo hi { h with unb := true } (pre ++ post)
+    refine BranchOk.mk' ⟨fun _ => hmat, hP.fl.mp⟩ hlen ?_ ?_ ⟨d, hk⟩
+    · refine srt_sub ?_ ha.srt
+      simp only [List.map_append]
+      exact List.Sublist.append_left (List.sublist_cons_self ..) _
+    · intro k hk
+      apply ha.bndk
+      simp only [List.map_append, List.mem_append, List.mem_cons] at hk ⊢
+      rcases hk with hk | hk
+      · exact Or.inl hk
+      · exact Or.inr (Or.inr hk)
+  · refine ⟨?_, ?_, rfl, rfl, rfl, ?_⟩
+    · simp [flatten, flattenKids_append, flattenKids_cons, hempty]
+    · have h1 := depthKids_eq (rbKids_depth hk) hne
+      have h2 := depthKids_eq (rbKids_depth (ha.kids ha.hkey.symm ha.hdep ha.hc)) (by simp)
+      simp only [depth, h1, h2]
+    · intro hm; simp only [hd_branch] at hm; rw [hmat] at hm; exact absurd hm (by decide)
+
+theorem ckey_of_hd {m : N} {hd : Hd} (h : m.hd = hd) (hm : hd.mat = true) : ckey m = hd.key := by
+  unfold ckey; rw [h, hm]; simp
+
+theorem geLo_if_of_lt {b : Bool} {a s : Bytes} (h : Bytes.lt a s = true) :
+    geLo (if b = true then some a else none) s = true := by
+  cases b
+  · rfl
+  · simp only [if_true, geLo_some, Bytes.lt_asymm h]; rfl
+
+theorem parent_merge_right {pmat : Bool} {lo hi : Option Bytes} {h : Hd} {post' : List (Bytes × N)}
+    {s sr : Bytes} {c c' r0 : N} (hP : BranchOk 2 pmat lo hi h ((s, c) :: (sr, r0) :: post'))
+    (hmat : h.mat = true) (hs : Same c c') (hcm : c'.hd.mat = true)
+    (hW : Wk 1 true true (if lo.isSome = true then some s else none) (some sr) (clr c'))
+    (hne : c'.count ≠ 0) :
+    ∃ m, appendInodes (clr c') (materialize r0) = some m ∧
+      W false pmat lo hi (.branch { h with unb := true } ((s, m) :: post')) ∧
+      Same (.branch h ((s, c) :: (sr, r0) :: post')) (.branch { h with unb := true } ((s, m) :: post')) := by
+  obtain ⟨d, ha⟩ := (show BranchOk 2 pmat lo hi h ([] ++ (s, c) :: (sr, r0) :: post') from hP).around
+  obtain ⟨d', hb⟩ := (show BranchOk 2 pmat lo hi h ([(s, c)] ++ (sr, r0) :: post') from hP).around
+  have hdd : d = d' := by
+    have := ((rbKids_cons' ..).mp ha.hpost).2.1
+    rw [← this, hb.hdep]
+  subst hdd
+  have hlt : Bytes.lt s sr = true := by
+    have := ha.srt
+    simp only [List.map_nil, List.nil_append, List.map_cons] at this
+    exact (List.pairwise_cons.mp this).1 sr (by simp)
+  have hrN : rbN false h.mat (some sr) (hiOf post' hi) r0 = true := by simpa using hb.hc
+  have hcc : c.hd.mat = true := by rw [← hs.mat]; exact hcm
+  obtain ⟨m, hm1, hm2, hm3, hm4, hm5⟩ := merge_ok (l := clr c') (r := materialize r0)
+    (lo := if lo.isSome = true then some s else none) (hi := hiOf post' hi) (sep := sr)
+    hW (rbN_iff_Wk.mp hrN |>.mono (by omega)).materialize (by simp [clr, hcm])
+    (by rw [materialize_eq]; simp [clr, hs.dp, ha.hdep, hb.hdep]) (Or.inl (by simpa [clr] using hne))
+    hb.ltHi_next (geLo_if_of_lt hlt)
+  have hkm : ckey m = s := by
+    rw [ckey_of_hd hm2 (by simp [clr, hcm]), ha.hkey]
+    simp [clr, hs.key, ckey, hcc]
+  have hdm : depth m = d := by rw [hm4]; simp [clr, hs.dp, ha.hdep]
+  have hk : rbKids h.mat lo.isSome hi ((s, m) :: post') d = true := by
+    rw [rbKids_cons']
+    refine ⟨hkm.symm, hdm, ?_, hb.hpost⟩
+    rw [hmat]; exact hm5
+  refine ⟨m, hm1, ⟨?_, Or.inr rfl⟩, ?_⟩
+  · show BranchOk 1 pmat lo hi { h with unb := true } ((s, m) :: post')
+    refine BranchOk.mk' ⟨fun _ => hmat, hP.fl.mp⟩ (by simp) ?_ ?_ ⟨d, hk⟩
+    · refine srt_sub ?_ ha.srt
+      simp only [List.map_cons, List.map_nil, List.nil_append]
+      exact List.Sublist.cons_cons _ (List.sublist_cons_self ..)
+    · intro k hk
+      apply ha.bndk
+      simp only [List.map_cons, List.map_nil, List.nil_append, List.mem_cons] at hk ⊢
+      rcases hk with hk | hk
+      · exact Or.inl hk
+      · exact Or.inr (Or.inr hk)
+  · refine ⟨?_, ?_, rfl, rfl, rfl, ?_⟩
+    · simp [flatten, flattenKids_cons, hm3, clr, materialize_eq, hs.fl]
+    · have h1 := depthKids_eq (rbKids_depth hk) (by simp)
+      have h2 := depthKids_eq (rbKids_depth (ha.kids ha.hkey.symm ha.hdep ha.hc)) (by simp)
+      simp only [List.nil_append] at h2
+      simp only [depth, h1, h2]
+    · intro hm; simp only [hd_branch] at hm; rw [hmat] at hm; exact absurd hm (by decide)
+
+theorem parent_merge_left {pmat : Bool} {lo hi : Option Bytes} {h : Hd} {pre' post : List (Bytes × N)}
+    {s sl : Bytes} {c c' l0 : N} (hP : BranchOk 2 pmat lo hi h (pre' ++ (sl, l0) :: (s, c) :: post))
+    (hmat : h.mat = true) (hs : Same c c') (hcm : c'.hd.mat = true)
+    (hW : Wk 1 true true (some s) (hiOf post hi) (clr c'))
+    (hne : c'.count ≠ 0) :
+    ∃ m, appendInodes (materialize l0) (clr c') = some m ∧
+      W false pmat lo hi (.branch { h with unb := true } (pre' ++ (sl, m) :: post)) ∧
+      Same (.branch h (pre' ++ (sl, l0) :: (s, c) :: post))
+        (.branch { h with unb := true } (pre' ++ (sl, m) :: post)) := by
+  obtain ⟨d, ha⟩ := hP.around
+  obtain ⟨d', hb⟩ := (show BranchOk 2 pmat lo hi h ((pre' ++ [(sl, l0)]) ++ (s, c) :: post) by simpa using hP).around
+  have hdd : d = d' := by
+    have := ((rbKids_cons' ..).mp ha.hpost).2.1
+    rw [← this, hb.hdep]
+  subst hdd
+  have hlt : Bytes.lt sl s = true := by
+    have := ha.srt
+    unfold Srt at this
+    rw [List.pairwise_append] at this
+    exact (List.pairwise_cons.mp this.2.1).1 s (by simp)
+  have hlN : rbN false h.mat (if (lo.isSome || !pre'.isEmpty) = true then some sl else none) (some s) l0 = true := by
+    simpa using ha.hc
+  have hcc : c.hd.mat = true := by rw [← hs.mat]; exact hcm
+  obtain ⟨m, hm1, hm2, hm3, hm4, hm5⟩ := merge_ok (l := materialize l0) (r := clr c')
+    (lo := if (lo.isSome || !pre'.isEmpty) = true then some sl else none) (hi := hiOf post hi) (sep := s)
+    (rbN_iff_Wk.mp hlN |>.mono (by omega)).materialize hW (by rw [materialize_eq]; simp [mhd_mat])
+    (by rw [materialize_eq]; simp [clr, hs.dp, ha.hdep, hb.hdep]) (Or.inr (by simpa [clr] using hne))
+    hb.ltHi_next (geLo_if_of_lt hlt)
+  have hkm : ckey m = sl := by
+    rw [materialize_eq, setHd_hd] at hm2
+    rw [ckey_of_hd hm2 (mhd_mat l0), mhd_key, ← ha.hkey]
+  have hdm : depth m = d := by rw [hm4, materialize_eq]; simp [ha.hdep]
+  have hk : rbKids h.mat lo.isSome hi (pre' ++ (sl, m) :: post) d = true := by
+    rw [rbKids_append, rbKids_cons']
+    refine ⟨ha.hpre, hkm.symm, hdm, ?_, hb.hpost⟩
+    rw [hmat]; exact hm5
+  refine ⟨m, hm1, ⟨?_, Or.inr rfl⟩, ?_⟩
+  · show BranchOk 1 pmat lo hi { h with unb := true } (pre' ++ (sl, m) :: post)
+    refine BranchOk.mk' ⟨fun _ => hmat, hP.fl.mp⟩ (by simp; omega) ?_ ?_ ⟨d, hk⟩
+    · refine srt_sub ?_ ha.srt
+      simp only [List.map_append, List.map_cons]
+      exact List.Sublist.append_left (List.Sublist.cons_cons _ (List.sublist_cons_self ..)) _
+    · intro k hk
+      apply ha.bndk
+      simp only [List.map_append, List.map_cons, List.mem_append, List.mem_cons] at hk ⊢
+      rcases hk with hk | hk | hk
+      · exact Or.inl hk
+      · exact Or.inr (Or.inl hk)
+      · exact Or.inr (Or.inr (Or.inr hk))
+  · refine ⟨?_, ?_, rfl, rfl, rfl, ?_⟩
+    · simp [flatten, flattenKids_append, flattenKids_cons, hm3, clr, materialize_eq, hs.fl]
+    · have h1 := depthKids_eq (rbKids_depth hk) (by simp)
+      have h2 := depthKids_eq (rbKids_depth (ha.kids ha.hkey.symm ha.hdep ha.hc)) (by simp)
+      simp only [depth, h1, h2]
+    · intro hm; simp only [hd_branch] at hm; rw [hmat] at hm; exact absurd hm (by decide)
+
+theorem Wk.flags {mk : Nat} {root pmat : Bool} {lo hi : Option Bytes} {n : N}
+    (h : Wk mk root pmat lo hi n) : FlagsOk pmat n.hd := by
+  cases n with
+  | leaf hd items => exact (h : LeafOk ..).fl
+  | branch hd kids => exact (h : BranchOk ..).fl
+
+theorem rbN_clr_of_big {root pmat : Bool} {lo hi : Option Bytes} {n : N}
+    (h : Wk 1 root pmat lo hi n) (hb : (clr n).count > (clr n).minKeys) : rbN false pmat lo hi (clr n) = true := by
+  cases n with
+  | leaf hd items =>
+    have h : LeafOk root pmat lo hi hd items := h
+    simp only [clr, setHd_leaf, N.count, N.minKeys, N.isLeaf, if_true] at hb ⊢
+    rw [rbN_leaf]
+    refine ⟨⟨fun h => by simp at h, h.fl.mp⟩, Or.inr (Or.inl ?_), h.srt, h.bnd⟩
+    intro h0; rw [h0] at hb; simp at hb
+  | branch hd kids =>
+    have h : BranchOk 1 pmat lo hi hd kids := h
+    simp only [clr, setHd_branch, N.count, N.minKeys, N.isLeaf] at hb ⊢
+    rw [rbN_branch]
+    exact ⟨⟨fun h => by simp at h, h.fl.mp⟩, by simp at hb; omega, h.srt, h.bnd, h.kids⟩
+
+theorem Wk.empty {root pmat : Bool} {lo hi : Option Bytes} {n : N}
+    (h : Wk 1 root pmat lo hi n) (h0 : n.count = 0) : flatten n = [] := by
+  cases n with
+  | leaf hd items => simp only [N.count] at h0; simp [flatten, List.eq_nil_of_length_eq_zero h0]
+  | branch hd kids =>
+    have h : BranchOk 1 pmat lo hi hd kids := h
+    have := h.len
+    simp only [N.count] at h0; omega
+
+theorem childS_ok (th : Nat) {h : Hd} {pre post : List (Bytes × N)} {s : Bytes} {c c' : N} {pmat : Bool}
+    {lo hi : Option Bytes} (hP : BranchOk 2 pmat lo hi h (pre ++ (s, c) :: post)) (hs : Same c c')
+    (hW : W false h.mat (if (lo.isSome || !pre.isEmpty) = true then some s else none) (hiOf post hi) c') :
+    ∃ P' call, childS th h pre s c' post = some (P', call) ∧
+      (if call = true then W false pmat lo hi P' else rbN false pmat lo hi P' = true) ∧
+      Same (.branch h (pre ++ (s, c) :: post)) P' := by
+  obtain ⟨d, ha⟩ := hP.around
+  have hkey : ckey c' = s := hs.ckey.trans ha.hkey.symm
+  have hcfl : FlagsOk h.mat c.hd := (rbN_iff_Wk.mp ha.hc).flags
+  by_cases hu : c'.hd.unb = false
+  · have hN := hW.2.resolve_right (by simp [hu])
+    obtain ⟨h1, h2⟩ := parent_replace hP hkey hs.fl hs.dp hN (fun hm => hs.page (by
+      cases hcm : c.hd.mat with
+      | false => rfl
+      | true => rw [hcfl.mp hcm] at hm; exact absurd hm (by decide)))
+    refine ⟨_, false, by unfold childS; rw [if_pos hu], ?_, h2⟩
+    simpa using (rbN_branch ..).mpr h1
+  · have hu' : c'.hd.unb = true := by simpa using hu
+    have hcm : c'.hd.mat = true := hW.1.flags.um hu'
+    have hmat : h.mat = true := hW.1.flags.mp hcm
+    have hck : c'.hd.key = s := by rw [← hkey]; simp [ckey, hcm]
+    by_cases hbig : (clr c').size > th ∧ (clr c').count > (clr c').minKeys
+    · have hN := rbN_clr_of_big hW.1 hbig.2
+      obtain ⟨h1, h2⟩ := parent_replace (c'' := clr c') hP (by simpa [ckey, clr, hcm] using hck) (by simp [clr, hs.fl])
+        (by simp [clr, hs.dp]) hN (fun hm => by rw [hmat] at hm; exact absurd hm (by decide))
+      refine ⟨_, false, by unfold childS; rw [if_neg hu]; simp only [if_pos hbig], ?_, h2⟩
+      simpa using (rbN_branch ..).mpr h1
+    · have hlb : lowerBound (pre.map (·.1) ++ s :: post.map (·.1)) (clr c').hd.key = pre.length := by
+        have : (clr c').hd.key = s := by simpa [clr] using hck
+        rw [this, lowerBound_mid _ _ _ ha.srt, List.length_map]
+      have hsk : s = (clr c').hd.key := by simpa [clr] using hck.symm
+      by_cases h0 : (clr c').count = 0
+      · have hemp : flatten c = [] := by rw [← hs.fl]; exact hW.1.empty (by simpa [clr] using h0)
+        obtain ⟨h1, h2⟩ := parent_erase hP hmat hemp
+        refine ⟨_, true, by unfold childS; rw [if_neg hu]; simp only [if_neg hbig, if_pos h0, if_pos (And.intro hlb hsk)], ?_, h2⟩
+        simpa using h1
+      · have hne : c'.count ≠ 0 := by simpa [clr] using h0
+        rcases List.eq_nil_or_concat pre with rfl | ⟨pre', x, rfl⟩
+        · cases post with
+          | nil => have := hP.len; simp at this
+          | cons x post' =>
+            obtain ⟨sr, r0⟩ := x
+            have hWk : Wk 1 true true (if lo.isSome = true then some s else none) (some sr) (clr c') := by
+              simpa using hW.1.clr hcm
+            obtain ⟨m, hm1, h1, h2⟩ := parent_merge_right hP hmat hs hcm hWk hne
+            obtain ⟨d', hb⟩ := (show BranchOk 2 pmat lo hi h ([(s, c)] ++ (sr, r0) :: post') from hP).around
+            have hkr : (materialize r0).hd.key = sr := by
+              rw [materialize_eq, setHd_hd, mhd_key, ← hb.hkey]
+            have hlb1 : lowerBound (s :: sr :: post'.map (·.1)) sr = 1 := by
+              have := lowerBound_mid [s] sr (post'.map (·.1)) (by simpa using ha.srt)
+              simpa using this
+            refine ⟨_, true, ?_, by simpa using h1, h2⟩
+            unfold childS
+            rw [if_neg hu]
+            simp only [if_neg hbig, if_neg h0]
+            simp [hkr, hlb1, hm1]
+            simpa using hlb
+        · obtain ⟨sl, l0⟩ := x
+          have hP' : BranchOk 2 pmat lo hi h (pre' ++ (sl, l0) :: (s, c) :: post) := by simpa using hP
+          have hWk : Wk 1 true true (some s) (hiOf post hi) (clr c') := by
+            simpa using hW.1.clr hcm
+          obtain ⟨m, hm1, h1, h2⟩ := parent_merge_left hP' hmat hs hcm hWk hne
+          refine ⟨_, true, ?_, by simpa using h1, by simpa using h2⟩
+          unfold childS
+          rw [if_neg hu]
+          simp only [if_neg hbig, if_neg h0]
+          simp [hm1]
+          exact ⟨by simpa using hlb, hsk⟩
+
+/-! ### the walk down and the calls on the way back up -/
+
+theorem getElem?_split {α} : ∀ {l : List α} {p : Nat} {a : α}, l[p]? = some a →
+    ∃ pre post, l = pre ++ a :: post ∧ pre.length = p
+  | [], p, a, h => by simp at h
+  | x :: l, 0, a, h => by
+    simp only [List.getElem?_cons_zero, Option.some.injEq] at h
+    exact ⟨[], l, by simp [h], rfl⟩
+  | x :: l, p+1, a, h => by
+    simp only [List.getElem?_cons_succ] at h
+    obtain ⟨pre, post, h1, h2⟩ := getElem?_split h
+    exact ⟨x :: pre, post, by simp [h1], by simp [h2]⟩
+
+theorem getElem?_mid {α} (pre : List α) (a : α) (post : List α) : (pre ++ a :: post)[pre.length]? = some a := by
+  simp
+
+theorem set_mid {α} (pre : List α) (a b : α) (post : List α) : (pre ++ a :: post).set pre.length b = pre ++ b :: post := by
+  simp
+
+theorem rbN_root {root pmat : Bool} {lo hi : Option Bytes} {n : N} (h : rbN false pmat lo hi n = true) :
+    rbN root pmat lo hi n = true := by
+  cases n with
+  | leaf hd items =>
+    rw [rbN_leaf] at h ⊢
+    exact ⟨h.fl, Or.inr (h.ne.resolve_left (by decide)), h.srt, h.bnd⟩
+  | branch hd kids => rw [rbN_branch] at h ⊢; exact h
+
+theorem W_root {root pmat : Bool} {lo hi : Option Bytes} {n : N} (h : W false pmat lo hi n) :
+    W root pmat lo hi n := by
+  refine ⟨?_, h.2.imp rbN_root id⟩
+  cases n with
+  | leaf hd items =>
+    have h1 : LeafOk false pmat lo hi hd items := h.1
+    exact (⟨h1.fl, Or.inr (h1.ne.resolve_left (by decide)), h1.srt, h1.bnd⟩ : LeafOk root pmat lo hi hd items)
+  | branch hd kids => exact h.1
+
+theorem rebalGo_ok (th : Nat) : ∀ (path : List Nat) (n x : N) (root pmat : Bool) (lo hi : Option Bytes),
+    rbN root pmat lo hi n = true → nodeAt path n = some x →
+    ∃ n' call, rebalGo th path n = some (n', call) ∧
+      (if call = true then W root pmat lo hi n' else rbN root pmat lo hi n' = true) ∧ Same n n'
+  | [], n, x, root, pmat, lo, hi, hn, _ => ⟨n, true, by rw [rebalGo], by simpa using W_of_rbN hn, Same.refl n⟩
+  | p :: rest, .leaf h items, x, root, pmat, lo, hi, hn, hx => by simp [nodeAt] at hx
+  | p :: rest, .branch h kids, x, root, pmat, lo, hi, hn, hx => by
+    rw [nodeAt] at hx
+    cases hk : kids[p]? with
+    | none => rw [hk] at hx; simp at hx
+    | some sc =>
+      obtain ⟨s, c⟩ := sc
+      rw [hk] at hx
+      simp only [Option.bind_some] at hx
+      obtain ⟨pre, post, rfl, rfl⟩ := getElem?_split hk
+      have hP : BranchOk 2 pmat lo hi h (pre ++ (s, c) :: post) := (rbN_branch ..).mp hn
+      obtain ⟨d, ha⟩ := hP.around
+      obtain ⟨c', call, hgo, hinv, hs⟩ := rebalGo_ok th rest c x _ _ _ _ ha.hc hx
+      rw [rebalGo]
+      simp only [hk, hgo, set_mid]
+      cases call with
+      | true =>
+        simp only [if_true] at hinv ⊢
+        rw [rebalChild_eq]
+        obtain ⟨P', call', h1, h2, h3⟩ := childS_ok th hP hs hinv
+        refine ⟨P', call', h1, ?_, h3⟩
+        cases call' with
+        | true => simpa using W_root (by simpa using h2)
+        | false => simpa using rbN_root (by simpa using h2)
+      | false =>
+        simp only [Bool.false_eq_true, if_false] at hinv ⊢
+        have hcfl : FlagsOk h.mat c.hd := (rbN_iff_Wk.mp ha.hc).flags
+        obtain ⟨h1, h2⟩ := parent_replace hP (hs.ckey.trans ha.hkey.symm) hs.fl hs.dp hinv (fun hm => hs.page (by
+          cases hcm : c.hd.mat with
+          | false => rfl
+          | true => rw [hcfl.mp hcm] at hm; exact absurd hm (by decide)))
+        exact ⟨_, false, rfl, by simpa using (rbN_branch ..).mpr h1, h2⟩
+
+/-! ### the root -/
+
+theorem rebalRoot_ok (th : Nat) {r : N} (hW : W true true none none r) :
+    ∃ t', rebalRoot th r = some t' ∧ rbN true true none none t' = true ∧ flatten t' = flatten r ∧
+      depth t' ≤ depth r := by
+  by_cases hu : r.hd.unb = false
+  · exact ⟨r, by simp [rebalRoot, hu], hW.2.resolve_right (by simp [hu]), rfl, Nat.le_refl _⟩
+  · have hu' : r.hd.unb = true := by simpa using hu
+    have hm : r.hd.mat = true := hW.1.flags.um hu'
+    by_cases hbig : (clr r).size > th ∧ (clr r).count > (clr r).minKeys
+    · refine ⟨clr r, ?_, rbN_root (rbN_clr_of_big hW.1 hbig.2), by simp [clr], by simp [clr]⟩
+      unfold rebalRoot
+      simp only [hu', Bool.not_true, Bool.false_eq_true, if_false]
+      exact if_pos hbig
+    · have hbig' := hbig
+      unfold clr at hbig'
+      cases r with
+      | leaf hd items =>
+        refine ⟨clr (.leaf hd items), ?_, ?_, by simp [clr, flatten], by simp [clr, depth]⟩
+        · unfold rebalRoot
+          simp only [hu', Bool.not_true, Bool.false_eq_true, if_false]
+          rw [if_neg hbig']
+          rfl
+        · have h1 : LeafOk true true none none hd items := hW.1
+          simp only [clr, setHd_leaf]
+          rw [rbN_leaf]
+          exact ⟨⟨fun h => by simp at h, fun _ => rfl⟩, Or.inl rfl, h1.srt, h1.bnd⟩
+      | branch hd kids =>
+        have h1 : BranchOk 1 true none none hd kids := hW.1
+        simp only [hd_branch] at hu' hm
+        match kids, h1 with
+        | [], h1 => have := h1.len; simp at this
+        | [(s, c)], h1 =>
+          obtain ⟨d, ha⟩ := (show BranchOk 1 true none none hd ([] ++ (s, c) :: []) from h1).around
+          have hc : rbN false hd.mat none none c = true := by simpa using ha.hc
+          have hmc := (rbN_iff_Wk.mp hc).materialize
+          have hres := hmc.setHd_mat (h' := { hd with unb := false }) ⟨fun h => by simp at h, fun _ => rfl⟩ hm
+          refine ⟨(materialize c).setHd { hd with unb := false }, ?_, rbN_iff_Wk.mpr hres, ?_, ?_⟩
+          · unfold rebalRoot
+            rw [if_neg hbig']
+            simp only [hd_branch, setHd_branch]
+            cases materialize c <;> simp [hu']
+          · simp [materialize_eq, flatten, flattenKids]
+          · simp [materialize_eq, depth, depthKids]
+        | x :: y :: r, h1 =>
+          refine ⟨clr (.branch hd (x :: y :: r)), ?_, ?_, by simp [clr, flatten], by simp [clr, depth]⟩
+          · unfold rebalRoot
+            rw [if_neg hbig']
+            simp [hu', clr]
+          · simp only [clr, setHd_branch]
+            rw [rbN_branch]
+            exact ⟨⟨fun h => by simp at h, fun _ => rfl⟩, by simp, h1.srt, h1.bnd, h1.kids⟩
+
+theorem rebalanceAt_ok (th : Nat) (t : N) (path : List Nat) (n : N) (hi : InTxR t)
+    (hp : nodeAt path t = some n) :
+    ∃ t', rebalanceAt th t path = some t' ∧ InTxR t' ∧ flatten t' = flatten t ∧ depth t' ≤ depth t := by
+  rw [inTxR_iff] at hi
+  obtain ⟨r, call, h1, h2, h3⟩ := rebalGo_ok th path t n _ _ _ _ hi hp
+  unfold rebalanceAt
+  rw [h1]
+  cases call with
+  | false =>
+    exact ⟨r, rfl, (inTxR_iff r).mpr (by simpa using h2), h3.fl, Nat.le_of_eq h3.dp⟩
+  | true =>
+    obtain ⟨t', h4, h5, h6, h7⟩ := rebalRoot_ok th (r := r) (by simpa using h2)
+    exact ⟨t', by simpa using h4, (inTxR_iff t').mpr h5, h6.trans h3.fl, by rw [← h3.dp]; exact h7⟩
+
+/-! ### `findMat` -/
+
+theorem findSome?_range_some {α} {f : Nat → Option α} {n : Nat} {a : α}
+    (h : (List.range n).findSome? f = some a) : ∃ i, i < n ∧ f i = some a := by
+  obtain ⟨i, hi, hf⟩ := List.exists_of_findSome?_eq_some h
+  exact ⟨i, List.mem_range.mp hi, hf⟩
+
+theorem findMat_nodeAt {pg : Nat} : ∀ {fuel : Nat} {t : N} {path : List Nat}, findMat pg fuel t = some path →
+    ∃ n, nodeAt path t = some n ∧ n.hd.mat = true ∧ n.hd.pgid = pg
+  | 0, t, path, h => by simp [findMat] at h
+  | fuel+1, t, path, h => by
+    unfold findMat at h
+    by_cases h1 : t.hd.mat = true ∧ t.hd.pgid = pg
+    · rw [if_pos h1] at h
+      cases h
+      exact ⟨t, rfl, h1.1, h1.2⟩
+    · rw [if_neg h1] at h
+      by_cases h2 : (!t.hd.mat) = true
+      · rw [if_pos h2] at h; cases h
+      · rw [if_neg h2] at h
+        cases t with
+        | leaf hd items => cases h
+        | branch hd kids =>
+          simp only at h
+          obtain ⟨i, _, hf⟩ := findSome?_range_some h
+          cases hk : kids[i]? with
+          | none => rw [hk] at hf; cases hf
+          | some sc =>
+            obtain ⟨s, c⟩ := sc
+            rw [hk] at hf
+            simp only [Option.map_eq_some_iff] at hf
+            obtain ⟨rest, hr, rfl⟩ := hf
+            obtain ⟨n, hn⟩ := findMat_nodeAt hr
+            exact ⟨n, by simp [nodeAt, hk, hn.1], hn.2⟩
+
+/-! ### page ids and the set of unbalanced nodes -/
+
+def pgidsBelow : N → List Nat
+  | .leaf _ _ => []
+  | .branch _ kids => pgidsKids kids
+
+def unbBelow : N → List Nat
+  | .leaf _ _ => []
+  | .branch _ kids => unbPgidsKids kids
+
+def unbHd (h : Hd) : List Nat := if h.unb then [h.pgid] else []
+
+theorem pgids_eq (n : N) : pgids n = n.hd.pgid :: pgidsBelow n := by
+  cases n <;> simp [pgids, pgidsBelow]
+
+theorem unbPgids_eq (n : N) : unbPgids n = unbHd n.hd ++ unbBelow n := by
+  cases n with
+  | leaf h items => show _ = unbHd h ++ []; rw [List.append_nil]; rfl
+  | branch h kids => rfl
+
+theorem pgids_branch (h : Hd) (kids : List (Bytes × N)) : pgids (.branch h kids) = h.pgid :: pgidsKids kids := by
+  rw [pgids]
+theorem unbPgids_branch (h : Hd) (kids : List (Bytes × N)) :
+    unbPgids (.branch h kids) = unbHd h ++ unbPgidsKids kids := by
+  rw [unbPgids]; rfl
+
+theorem pgidsKids_cons (s : Bytes) (c : N) (r : List (Bytes × N)) : pgidsKids ((s, c) :: r) = pgids c ++ pgidsKids r := by
+  rw [pgidsKids]
+theorem unbPgidsKids_cons (s : Bytes) (c : N) (r : List (Bytes × N)) :
+    unbPgidsKids ((s, c) :: r) = unbPgids c ++ unbPgidsKids r := by
+  rw [unbPgidsKids]
+
+theorem pgidsKids_append : ∀ (a b : List (Bytes × N)), pgidsKids (a ++ b) = pgidsKids a ++ pgidsKids b
+  | [], b => by simp [pgidsKids]
+  | (s, c) :: a', b => by simp [pgidsKids, pgidsKids_append a' b]
+
+theorem unbPgidsKids_append : ∀ (a b : List (Bytes × N)), unbPgidsKids (a ++ b) = unbPgidsKids a ++ unbPgidsKids b
+  | [], b => by simp [unbPgidsKids]
+  | (s, c) :: a', b => by simp [unbPgidsKids, unbPgidsKids_append a' b]
+
+@[local simp] theorem pgidsBelow_setHd (n : N) (h : Hd) : pgidsBelow (n.setHd h) = pgidsBelow n := by cases n <;> rfl
+@[local simp] theorem unbBelow_setHd (n : N) (h : Hd) : unbBelow (n.setHd h) = unbBelow n := by cases n <;> rfl
+
+theorem unbHd_sub (h : Hd) : ∀ x ∈ unbHd h, x = h.pgid := by
+  intro x hx; unfold unbHd at hx; split at hx <;> simp_all
+
+mutual
+theorem unb_sub_pgids : ∀ (n : N), ∀ x ∈ unbPgids n, x ∈ pgids n
+  | .leaf h items => by
+    intro x hx
+    rw [unbPgids] at hx; rw [pgids]
+    split at hx <;> simp_all
+  | .branch h kids => by
+    intro x hx
+    rw [unbPgids_branch] at hx; rw [pgids_branch]
+    rcases List.mem_append.mp hx with hx | hx
+    · rw [unbHd_sub h x hx]; exact List.mem_cons_self ..
+    · exact List.mem_cons_of_mem _ (unbKids_sub_pgidsKids kids x hx)
+theorem unbKids_sub_pgidsKids : ∀ (kids : List (Bytes × N)), ∀ x ∈ unbPgidsKids kids, x ∈ pgidsKids kids
+  | [] => by simp [unbPgidsKids]
+  | (s, c) :: r => by
+    intro x hx
+    rw [unbPgidsKids_cons] at hx; rw [pgidsKids_cons]
+    rcases List.mem_append.mp hx with hx | hx
+    · exact List.mem_append_left _ (unb_sub_pgids c x hx)
+    · exact List.mem_append_right _ (unbKids_sub_pgidsKids r x hx)
+end
+
+theorem unbBelow_sub (n : N) : ∀ x ∈ unbBelow n, x ∈ pgidsBelow n := by
+  cases n with
+  | leaf h items => simp [unbBelow]
+  | branch h kids => exact unbKids_sub_pgidsKids kids
+
+theorem pgids_clr (n : N) : pgids (clr n) = pgids n := by
+  rw [pgids_eq, pgids_eq n]; simp [clr]
+
+theorem unbPgids_clr (n : N) : unbPgids (clr n) = unbBelow n := by
+  rw [unbPgids_eq]; simp [clr, unbHd]
+
+theorem unbPgids_of_not_unb {n : N} (h : n.hd.unb = false) : unbPgids n = unbBelow n := by
+  rw [unbPgids_eq]; simp [unbHd, h]
+
+theorem pgids_materialize (n : N) : pgids (materialize n) = pgids n := by
+  rw [materialize_eq, pgids_eq, pgids_eq n]; simp [mhd_pgid]
+
+theorem unbBelow_materialize (n : N) : unbBelow (materialize n) = unbBelow n := by
+  rw [materialize_eq]; simp
+
+theorem unbPgids_materialize_sub (n : N) : ∀ x ∈ unbPgids (materialize n), x ∈ unbPgids n := by
+  unfold materialize
+  by_cases h : n.hd.mat = true
+  · simp [h]
+  · simp only [h]
+    intro x hx
+    rw [unbPgids_eq] at hx ⊢
+    simp [unbHd] at hx
+    exact List.mem_append_right _ hx
+
+theorem appendInodes_pgids {l r m : N} (h : appendInodes l r = some m) :
+    pgids m = pgids l ++ pgidsBelow r ∧ unbPgids m = unbPgids l ++ unbBelow r := by
+  cases l with
+  | leaf hl a =>
+    cases r with
+    | leaf hr b => simp [appendInodes] at h; subst h; simp [pgids, unbPgids, pgidsBelow, unbBelow]
+    | branch hr b => simp [appendInodes] at h
+  | branch hl a =>
+    cases r with
+    | leaf hr b => simp [appendInodes] at h
+    | branch hr b =>
+      simp [appendInodes] at h; subst h
+      simp [pgids_branch, unbPgids_branch, pgidsBelow, unbBelow, pgidsKids_append, unbPgidsKids_append]
+
+/-! ### one visit removes the visited node from the unbalanced set and adds nothing -/
+
+theorem stepL {pg hp : Nat} {A C B HU AU CU BU A' C' B' HU' AU' CU' BU' : List Nat}
+    (hnd : (hp :: (A ++ (C ++ B))).Nodup) (hpgC : pg ∈ C)
+    (hHU : ∀ x ∈ HU, x = hp) (hAU : ∀ x ∈ AU, x ∈ A) (hBU : ∀ x ∈ BU, x ∈ B)
+    (sA : A'.Sublist A) (sC : C'.Sublist C) (sB : B'.Sublist B)
+    (uH : ∀ x ∈ HU', x ∈ HU) (uA : ∀ x ∈ AU', x ∈ AU) (uB : ∀ x ∈ BU', x ∈ BU)
+    (uC : ∀ x ∈ CU', x ∈ CU) (nC : pg ∉ CU') :
+    (hp :: (A' ++ (C' ++ B'))).Sublist (hp :: (A ++ (C ++ B))) ∧
+      (∀ x ∈ HU' ++ (AU' ++ (CU' ++ BU')), x ∈ HU ++ (AU ++ (CU ++ BU))) ∧
+      pg ∉ HU' ++ (AU' ++ (CU' ++ BU')) := by
+  rw [List.nodup_cons, List.nodup_append] at hnd
+  obtain ⟨h1, _, h2, h3⟩ := hnd
+  rw [List.nodup_append] at h2
+  refine ⟨List.Sublist.cons_cons _ (List.Sublist.append sA (List.Sublist.append sC sB)), ?_, ?_⟩
+  · intro x hx
+    simp only [List.mem_append] at hx ⊢
+    rcases hx with hx | hx | hx | hx
+    · exact Or.inl (uH x hx)
+    · exact Or.inr (Or.inl (uA x hx))
+    · exact Or.inr (Or.inr (Or.inl (uC x hx)))
+    · exact Or.inr (Or.inr (Or.inr (uB x hx)))
+  · intro hx
+    simp only [List.mem_append] at hx
+    rcases hx with hx | hx | hx | hx
+    · have := hHU _ (uH _ hx)
+      subst this
+      exact h1 (List.mem_append_right _ (List.mem_append_left _ hpgC))
+    · exact h3 _ (hAU _ (uA _ hx)) _ (List.mem_append_left _ hpgC) rfl
+    · exact nC hx
+    · exact h2.2.2 _ hpgC _ (hBU _ (uB _ hx)) rfl
+
+structure Step (pg : Nat) (n n' : N) : Prop where
+  sub : (pgids n').Sublist (pgids n)
+  unb : ∀ x ∈ unbPgids n', x ∈ unbPgids n
+  npg : pg ∉ unbPgids n'
+
+theorem childS_inv {th : Nat} {h : Hd} {pre post : List (Bytes × N)} {s : Bytes} {n0 P' : N} {call : Bool}
+    (hc : childS th h pre s n0 post = some (P', call)) :
+    (n0.hd.unb = false ∧ P' = .branch h (pre ++ (s, n0) :: post) ∧ call = false) ∨
+    (P' = .branch h (pre ++ (s, clr n0) :: post) ∧ call = false) ∨
+    (P' = .branch { h with unb := true } (pre ++ post) ∧ call = true) ∨
+    (∃ sr r0 post' m, pre = [] ∧ post = (sr, r0) :: post' ∧ appendInodes (clr n0) (materialize r0) = some m ∧
+      P' = .branch { h with unb := true } ((s, m) :: post') ∧ call = true) ∨
+    (∃ pre' sl l0 m, pre = pre' ++ [(sl, l0)] ∧ appendInodes (materialize l0) (clr n0) = some m ∧
+      P' = .branch { h with unb := true } (pre' ++ (sl, m) :: post) ∧ call = true) := by
+  unfold childS at hc
+  by_cases hu : n0.hd.unb = false
+  · rw [if_pos hu] at hc
+    simp only [Option.some.injEq, Prod.mk.injEq] at hc
+    exact Or.inl ⟨hu, hc.1.symm, hc.2.symm⟩
+  · rw [if_neg hu] at hc
+    simp only at hc
+    by_cases hbig : (clr n0).size > th ∧ (clr n0).count > (clr n0).minKeys
+    · rw [if_pos hbig] at hc
+      simp only [Option.some.injEq, Prod.mk.injEq] at hc
+      exact Or.inr (Or.inl ⟨hc.1.symm, hc.2.symm⟩)
+    · rw [if_neg hbig] at hc
+      by_cases h0 : (clr n0).count = 0
+      · rw [if_pos h0] at hc
+        split at hc
+        · simp only [Option.some.injEq, Prod.mk.injEq] at hc
+          exact Or.inr (Or.inr (Or.inl ⟨hc.1.symm, hc.2.symm⟩))
+        · cases hc
+      · rw [if_neg h0] at hc
+        split at hc
+        · cases hc
+        · split at hc
+          · cases hc
+          · rcases List.eq_nil_or_concat pre with rfl | ⟨pre', x, rfl⟩
+            · cases post with
+              | nil => simp at hc
+              | cons x post' =>
+                obtain ⟨sr, r0⟩ := x
+                simp only [List.getLast?_nil] at hc
+                split at hc
+                · simp only [Option.map_eq_some_iff, Prod.mk.injEq] at hc
+                  obtain ⟨m, hm, h1, h2⟩ := hc
+                  exact Or.inr (Or.inr (Or.inr (Or.inl ⟨sr, r0, post', m, rfl, rfl, hm, h1.symm, h2.symm⟩)))
+                · cases hc
+            · obtain ⟨sl, l0⟩ := x
+              simp only [List.concat_eq_append, List.getLast?_append, List.getLast?_singleton,
+                Option.some_or, List.dropLast_concat] at hc
+              split at hc
+              · simp only [Option.map_eq_some_iff, Prod.mk.injEq] at hc
+                obtain ⟨m, hm, h1, h2⟩ := hc
+                exact Or.inr (Or.inr (Or.inr (Or.inr ⟨pre', sl, l0, m, by simp, hm, h1.symm, h2.symm⟩)))
+              · cases hc
+
+theorem step_parent {pg : Nat} {h : Hd} {pre post : List (Bytes × N)} {s : Bytes} {c R : N}
+    {A' C' B' HU' AU' CU' BU' : List Nat}
+    (hnd : (pgids (.branch h (pre ++ (s, c) :: post))).Nodup) (hpg : pg ∈ pgids c)
+    (eP' : pgids R = h.pgid :: (A' ++ (C' ++ B'))) (eU' : unbPgids R = HU' ++ (AU' ++ (CU' ++ BU')))
+    (sA : A'.Sublist (pgidsKids pre)) (sC : C'.Sublist (pgids c)) (sB : B'.Sublist (pgidsKids post))
+    (uH : ∀ x ∈ HU', x ∈ unbHd h) (uA : ∀ x ∈ AU', x ∈ unbPgidsKids pre)
+    (uB : ∀ x ∈ BU', x ∈ unbPgidsKids post) (uC : ∀ x ∈ CU', x ∈ unbPgids c) (nC : pg ∉ CU') :
+    Step pg (.branch h (pre ++ (s, c) :: post)) R := by
+  have eP : pgids (.branch h (pre ++ (s, c) :: post)) = h.pgid :: (pgidsKids pre ++ (pgids c ++ pgidsKids post)) := by
+    rw [pgids_branch, pgidsKids_append, pgidsKids_cons]
+  have eU : unbPgids (.branch h (pre ++ (s, c) :: post)) =
+      unbHd h ++ (unbPgidsKids pre ++ (unbPgids c ++ unbPgidsKids post)) := by
+    rw [unbPgids_branch, unbPgidsKids_append, unbPgidsKids_cons]
+  rw [eP] at hnd
+  obtain ⟨r1, r2, r3⟩ := stepL hnd hpg (unbHd_sub h) (unbKids_sub_pgidsKids pre) (unbKids_sub_pgidsKids post)
+    sA sC sB uH uA uB uC nC
+  exact ⟨by rw [eP, eP']; exact r1, by rw [eU, eU']; exact r2, by rw [eU']; exact r3⟩
+
+theorem sublist_below (n : N) : (pgidsBelow n).Sublist (pgids n) := by
+  rw [pgids_eq]; exact List.sublist_cons_self ..
+
+theorem unbBelow_sub_unb (n : N) : ∀ x ∈ unbBelow n, x ∈ unbPgids n := by
+  intro x hx; rw [unbPgids_eq]; exact List.mem_append_right _ hx
+
+theorem childS_step {pg th : Nat} {h : Hd} {pre post : List (Bytes × N)} {s : Bytes} {c c' P' : N} {call : Bool}
+    (hnd : (pgids (.branch h (pre ++ (s, c) :: post))).Nodup) (hpg : pg ∈ pgids c)
+    (hc : Step pg c (clr c')) (hch : childS th h pre s c' post = some (P', call)) :
+    Step pg (.branch h (pre ++ (s, c) :: post)) (if call = true then clr P' else P') := by
+  have hsub : (pgids c').Sublist (pgids c) := by have := hc.sub; rwa [pgids_clr] at this
+  have hunb : ∀ x ∈ unbBelow c', x ∈ unbPgids c := by have := hc.unb; rwa [unbPgids_clr] at this
+  have hnpg : pg ∉ unbBelow c' := by have := hc.npg; rwa [unbPgids_clr] at this
+  rcases childS_inv hch with ⟨hu, rfl, rfl⟩ | ⟨rfl, rfl⟩ | ⟨rfl, rfl⟩ | ⟨sr, r0, post', m, rfl, rfl, hm, rfl, rfl⟩ |
+    ⟨pre', sl, l0, m, rfl, hm, rfl, rfl⟩
+  · simp only [Bool.false_eq_true, if_false]
+    refine step_parent (A' := pgidsKids pre) (C' := pgids c') (B' := pgidsKids post)
+      (HU' := unbHd h) (AU' := unbPgidsKids pre) (CU' := unbBelow c') (BU' := unbPgidsKids post) hnd hpg ?_ ?_
+      (List.Sublist.refl _) hsub (List.Sublist.refl _) (fun _ h => h) (fun _ h => h) (fun _ h => h) hunb hnpg
+    · rw [pgids_branch, pgidsKids_append, pgidsKids_cons]
+    · rw [unbPgids_branch, unbPgidsKids_append, unbPgidsKids_cons, unbPgids_of_not_unb hu]
+  · simp only [Bool.false_eq_true, if_false]
+    refine step_parent (A' := pgidsKids pre) (C' := pgids c') (B' := pgidsKids post)
+      (HU' := unbHd h) (AU' := unbPgidsKids pre) (CU' := unbBelow c') (BU' := unbPgidsKids post) hnd hpg ?_ ?_
+      (List.Sublist.refl _) hsub (List.Sublist.refl _) (fun _ h => h) (fun _ h => h) (fun _ h => h) hunb hnpg
+    · rw [pgids_branch, pgidsKids_append, pgidsKids_cons, pgids_clr]
+    · rw [unbPgids_branch, unbPgidsKids_append, unbPgidsKids_cons, unbPgids_clr]
+  · simp only [if_true]
+    refine step_parent (A' := pgidsKids pre) (C' := []) (B' := pgidsKids post)
+      (HU' := []) (AU' := unbPgidsKids pre) (CU' := []) (BU' := unbPgidsKids post) hnd hpg ?_ ?_
+      (List.Sublist.refl _) (List.nil_sublist _) (List.Sublist.refl _) (by simp) (fun _ h => h) (fun _ h => h)
+      (by simp) (by simp)
+    · simp [clr, pgids_branch, pgidsKids_append]
+    · simp [clr, unbPgids_branch, unbPgidsKids_append, unbHd]
+  · simp only [if_true]
+    obtain ⟨e1, e2⟩ := appendInodes_pgids hm
+    refine step_parent (A' := []) (C' := pgids c') (B' := pgidsBelow r0 ++ pgidsKids post')
+      (HU' := []) (AU' := []) (CU' := unbBelow c') (BU' := unbBelow r0 ++ unbPgidsKids post') hnd hpg ?_ ?_
+      (List.Sublist.refl _) hsub ?_ (by simp) (by simp) ?_ hunb hnpg
+    · simp [clr, pgids_branch, pgidsKids_cons, e1, materialize_eq]
+      exact pgids_clr c'
+    · simp [clr, unbPgids_branch, unbPgidsKids_cons, e2, unbHd, materialize_eq]
+      exact unbPgids_clr c'
+    · rw [pgidsKids_cons]
+      exact List.Sublist.append (sublist_below r0) (List.Sublist.refl _)
+    · intro x hx
+      rw [unbPgidsKids_cons]
+      rcases List.mem_append.mp hx with hx | hx
+      · exact List.mem_append_left _ (unbBelow_sub_unb r0 x hx)
+      · exact List.mem_append_right _ hx
+  · simp only [if_true]
+    obtain ⟨e1, e2⟩ := appendInodes_pgids hm
+    refine step_parent (A' := pgidsKids (pre' ++ [(sl, l0)])) (C' := pgidsBelow c') (B' := pgidsKids post)
+      (HU' := []) (AU' := unbPgidsKids pre' ++ unbPgids (materialize l0)) (CU' := unbBelow c')
+      (BU' := unbPgidsKids post) hnd hpg ?_ ?_
+      (List.Sublist.refl _) ((sublist_below c').trans hsub) (List.Sublist.refl _) (by simp) ?_ (fun _ h => h)
+      hunb hnpg
+    · simp [clr, pgids_branch, pgidsKids_append, e1, pgids_materialize, pgidsKids]
+    · simp [clr, unbPgids_branch, unbPgidsKids_append, unbPgidsKids_cons, e2, unbHd]
+    · intro x hx
+      rw [unbPgidsKids_append, unbPgidsKids_cons]
+      rcases List.mem_append.mp hx with hx | hx
+      · exact List.mem_append_left _ hx
+      · exact List.mem_append_right _ (List.mem_append_left _ (unbPgids_materialize_sub l0 x hx))
+
+theorem nodeAt_pgid_mem : ∀ (path : List Nat) (n x : N), nodeAt path n = some x → x.hd.pgid ∈ pgids n
+  | [], n, x, h => by
+    simp only [nodeAt, Option.some.injEq] at h; subst h
+    rw [pgids_eq]; exact List.mem_cons_self ..
+  | p :: rest, .leaf hd items, x, h => by simp [nodeAt] at h
+  | p :: rest, .branch hd kids, x, h => by
+    rw [nodeAt] at h
+    cases hk : kids[p]? with
+    | none => rw [hk] at h; simp at h
+    | some sc =>
+      obtain ⟨s, c⟩ := sc
+      rw [hk] at h
+      simp only [Option.bind_some] at h
+      obtain ⟨pre, post, rfl, rfl⟩ := getElem?_split hk
+      have := nodeAt_pgid_mem rest c x h
+      rw [pgids_branch, pgidsKids_append, pgidsKids_cons]
+      exact List.mem_cons_of_mem _ (List.mem_append_right _ (List.mem_append_left _ this))
+
+theorem rebalGo_step (th pg : Nat) : ∀ (path : List Nat) (n x n' : N) (call : Bool),
+    nodeAt path n = some x → x.hd.pgid = pg → (pgids n).Nodup → rebalGo th path n = some (n', call) →
+    Step pg n (if call = true then clr n' else n')
+  | [], n, x, n', call, hx, hpg, hnd, hgo => by
+    simp only [nodeAt, Option.some.injEq] at hx; subst hx
+    simp only [rebalGo, Option.some.injEq, Prod.mk.injEq] at hgo
+    obtain ⟨rfl, rfl⟩ := hgo
+    simp only [if_true]
+    refine ⟨by rw [pgids_clr]; exact List.Sublist.refl _, by rw [unbPgids_clr]; exact unbBelow_sub_unb n, ?_⟩
+    rw [unbPgids_clr]
+    intro hmem
+    rw [pgids_eq, List.nodup_cons, hpg] at hnd
+    exact hnd.1 (unbBelow_sub n _ hmem)
+  | p :: rest, .leaf hd items, x, n', call, hx, _, _, _ => by simp [nodeAt] at hx
+  | p :: rest, .branch hd kids, x, n', call, hx, hpg, hnd, hgo => by
+    rw [nodeAt] at hx
+    cases hk : kids[p]? with
+    | none => rw [hk] at hx; simp at hx
+    | some sc =>
+      obtain ⟨s, c⟩ := sc
+      rw [hk] at hx
+      simp only [Option.bind_some] at hx
+      obtain ⟨pre, post, rfl, rfl⟩ := getElem?_split hk
+      have hpgc : pg ∈ pgids c := hpg ▸ nodeAt_pgid_mem rest c x hx
+      have hndc : (pgids c).Nodup := by
+        refine List.Nodup.sublist ?_ hnd
+        rw [pgids_branch, pgidsKids_append, pgidsKids_cons]
+        exact List.Sublist.cons _ ((List.sublist_append_left _ _).trans (List.sublist_append_right _ _))
+      rw [rebalGo] at hgo
+      simp only [hk] at hgo
+      cases hr : rebalGo th rest c with
+      | none => rw [hr] at hgo; simp at hgo
+      | some res =>
+        obtain ⟨c', call0⟩ := res
+        rw [hr] at hgo
+        simp only [set_mid] at hgo
+        have ih := rebalGo_step th pg rest c x c' call0 hx hpg hndc hr
+        cases call0 with
+        | true =>
+          simp only [if_true] at hgo ih
+          rw [rebalChild_eq] at hgo
+          exact childS_step hnd hpgc ih hgo
+        | false =>
+          simp only [Bool.false_eq_true, if_false, Option.some.injEq, Prod.mk.injEq] at hgo ih
+          obtain ⟨rfl, rfl⟩ := hgo
+          simp only [Bool.false_eq_true, if_false]
+          refine step_parent (A' := pgidsKids pre) (C' := pgids c') (B' := pgidsKids post)
+            (HU' := unbHd hd) (AU' := unbPgidsKids pre) (CU' := unbPgids c') (BU' := unbPgidsKids post) hnd hpgc ?_ ?_
+            (List.Sublist.refl _) ih.sub (List.Sublist.refl _) (fun _ h => h) (fun _ h => h) (fun _ h => h)
+            ih.unb ih.npg
+          · rw [pgids_branch, pgidsKids_append, pgidsKids_cons]
+          · rw [unbPgids_branch, unbPgidsKids_append, unbPgidsKids_cons]
+
+theorem rebalRoot_step {th : Nat} {r t' : N} (h : rebalRoot th r = some t') :
+    (pgids t').Sublist (pgids r) ∧ ∀ x ∈ unbPgids t', x ∈ unbBelow r := by
+  unfold rebalRoot at h
+  by_cases hu : r.hd.unb = false
+  · simp only [hu, Bool.not_false, if_true, Option.some.injEq] at h
+    subst h
+    exact ⟨List.Sublist.refl _, by rw [unbPgids_of_not_unb hu]; exact fun _ h => h⟩
+  · have hu' : r.hd.unb = true := by simpa using hu
+    simp only [hu', Bool.not_true, Bool.false_eq_true, if_false] at h
+    have hclr : (pgids (clr r)).Sublist (pgids r) ∧ ∀ x ∈ unbPgids (clr r), x ∈ unbBelow r :=
+      ⟨by rw [pgids_clr]; exact List.Sublist.refl _, by rw [unbPgids_clr]; exact fun _ h => h⟩
+    split at h
+    · simp only [Option.some.injEq] at h; subst h; exact hclr
+    · split at h
+      · rename_i hd0 s c heq
+        have hr : ∃ hd, r = .branch hd [(s, c)] ∧ hd0 = { hd with unb := false } := by
+          cases r with
+          | leaf hd items => simp [N.setHd] at heq
+          | branch hd kids =>
+            simp only [setHd_branch, N.branch.injEq] at heq
+            exact ⟨hd, by rw [heq.2], heq.1.symm⟩
+        obtain ⟨hd, rfl, rfl⟩ := hr
+        have ht : t' = (materialize c).setHd { hd with unb := false } := by
+          cases hm : materialize c <;> rw [hm] at h <;> simp at h <;> exact h.symm
+        subst ht
+        constructor
+        · rw [pgids_eq, pgids_branch]
+          simp only [setHd_hd, pgidsBelow_setHd, pgidsKids, List.append_nil]
+          refine List.Sublist.cons_cons _ ?_
+          have := sublist_below c
+          rwa [materialize_eq, pgidsBelow_setHd]
+        · intro x hx
+          rw [unbPgids_eq] at hx
+          simp only [setHd_hd, unbBelow_setHd, unbHd, Bool.false_eq_true, if_false, List.nil_append,
+            unbBelow_materialize] at hx
+          simp only [unbBelow, unbPgidsKids, List.append_nil]
+          exact unbBelow_sub_unb c x hx
+      · simp only [Option.some.injEq] at h; subst h; exact hclr
+
+theorem rebalanceAt_step {th pg : Nat} {t t' x : N} {path : List Nat} (hx : nodeAt path t = some x)
+    (hpg : x.hd.pgid = pg) (hnd : (pgids t).Nodup) (h : rebalanceAt th t path = some t') :
+    (pgids t').Sublist (pgids t) ∧ (∀ y ∈ unbPgids t', y ∈ unbPgids t) ∧ pg ∉ unbPgids t' := by
+  unfold rebalanceAt at h
+  cases hr : rebalGo th path t with
+  | none => rw [hr] at h; simp at h
+  | some res =>
+    obtain ⟨r, call⟩ := res
+    rw [hr] at h
+    have hs := rebalGo_step th pg path t x r call hx hpg hnd hr
+    cases call with
+    | false =>
+      simp only [Bool.false_eq_true, if_false, Option.some.injEq] at h hs
+      subst h
+      exact ⟨hs.sub, hs.unb, hs.npg⟩
+    | true =>
+      simp only [if_true] at h hs
+      obtain ⟨h1, h2⟩ := rebalRoot_step h
+      have hsub := hs.sub
+      rw [pgids_clr] at hsub
+      have h3 : ∀ y ∈ unbPgids t', y ∈ unbPgids (clr r) := by rw [unbPgids_clr]; exact h2
+      exact ⟨h1.trans hsub, fun y hy => hs.unb y (h3 y hy), fun hmem => hs.npg (h3 _ hmem)⟩
+
+/-! ### the unbalanced nodes are in the node map -/
+
+mutual
+theorem anyUnb_of_nil : ∀ (n : N), unbPgids n = [] → anyUnb n = false
+  | .leaf h items => by
+    intro hn
+    rw [unbPgids] at hn; rw [anyUnb]
+    cases hu : h.unb <;> simp_all
+  | .branch h kids => by
+    intro hn
+    rw [unbPgids_branch, List.append_eq_nil_iff] at hn
+    rw [anyUnb, anyUnbKids_of_nil kids hn.2]
+    have := hn.1
+    unfold unbHd at this
+    cases hu : h.unb <;> simp_all
+theorem anyUnbKids_of_nil : ∀ (kids : List (Bytes × N)), unbPgidsKids kids = [] → anyUnbKids kids = false
+  | [] => by intro _; rw [anyUnbKids]
+  | (s, c) :: r => by
+    intro hn
+    rw [unbPgidsKids_cons, List.append_eq_nil_iff] at hn
+    rw [anyUnbKids, anyUnb_of_nil c hn.1, anyUnbKids_of_nil r hn.2]; rfl
+end
+
+mutual
+theorem unb_nil_of_page : ∀ (n : N) (root pmat : Bool) (lo hi : Option Bytes),
+    rbN root pmat lo hi n = true → n.hd.mat = false → unbPgids n = []
+  | .leaf h items, root, pmat, lo, hi, hn, hm => by
+    rw [rbN_leaf] at hn
+    simp only [hd_leaf] at hm
+    rw [unbPgids]
+    cases hu : h.unb with
+    | false => simp
+    | true => rw [hn.fl.um hu] at hm; cases hm
+  | .branch h kids, root, pmat, lo, hi, hn, hm => by
+    rw [rbN_branch] at hn
+    simp only [hd_branch] at hm
+    obtain ⟨d, hk⟩ := hn.kids
+    rw [hm] at hk
+    rw [unbPgids_branch, unbKids_nil_of_page kids _ _ _ hk]
+    unfold unbHd
+    cases hu : h.unb with
+    | false => simp
+    | true => rw [hn.fl.um hu] at hm; cases hm
+theorem unbKids_nil_of_page : ∀ (kids : List (Bytes × N)) (bd : Bool) (hi : Option Bytes) (d : Nat),
+    rbKids false bd hi kids d = true → unbPgidsKids kids = []
+  | [], _, _, _, _ => by rw [unbPgidsKids]
+  | (s, c) :: r, bd, hi, d, hk => by
+    rw [rbKids_cons'] at hk
+    have hcm : c.hd.mat = false := by
+      cases hm : c.hd.mat with
+      | false => rfl
+      | true => exact absurd ((rbN_iff_Wk.mp hk.2.2.1).flags.mp hm) (by decide)
+    rw [unbPgidsKids_cons, unb_nil_of_page c _ _ _ _ hk.2.2.1 hcm, unbKids_nil_of_page r _ _ _ hk.2.2.2]
+    rfl
+end
+
+mutual
+theorem unb_sub_mat : ∀ (n : N) (fuel : Nat) (root pmat : Bool) (lo hi : Option Bytes),
+    rbN root pmat lo hi n = true → depth n ≤ fuel → ∀ x ∈ unbPgids n, x ∈ matPgids fuel n
+  | .leaf h items, fuel, root, pmat, lo, hi, hn, hf => by
+    intro x hx
+    rw [rbN_leaf] at hn
+    rw [unbPgids] at hx
+    cases hu : h.unb with
+    | false => simp [hu] at hx
+    | true =>
+      simp only [hu, if_true, List.mem_singleton] at hx
+      rw [depth] at hf
+      obtain ⟨f, rfl⟩ : ∃ f, fuel = f + 1 := ⟨fuel - 1, by omega⟩
+      simp [matPgids, hn.fl.um hu, hx]
+  | .branch h kids, fuel, root, pmat, lo, hi, hn, hf => by
+    intro x hx
+    cases hm : h.mat with
+    | false => rw [unb_nil_of_page _ _ _ _ _ hn (by simpa using hm)] at hx; cases hx
+    | true =>
+      rw [rbN_branch] at hn
+      obtain ⟨d, hk⟩ := hn.kids
+      rw [depth] at hf
+      obtain ⟨f, rfl⟩ : ∃ f, fuel = f + 1 := ⟨fuel - 1, by omega⟩
+      have hne : kids ≠ [] := by intro h0; have := hn.len; simp [h0] at this
+      have hdk := depthKids_eq (rbKids_depth hk) hne
+      rw [unbPgids_branch] at hx
+      simp only [matPgids, hd_branch, hm, Bool.not_true, Bool.false_eq_true, if_false, List.mem_cons]
+      rcases List.mem_append.mp hx with hx | hx
+      · exact Or.inl (unbHd_sub h x hx)
+      · exact Or.inr (unbKids_sub_mat kids f _ _ _ _ hk (by omega) x hx)
+theorem unbKids_sub_mat : ∀ (kids : List (Bytes × N)) (fuel : Nat) (pmat bd : Bool) (hi : Option Bytes) (d : Nat),
+    rbKids pmat bd hi kids d = true → d ≤ fuel →
+    ∀ x ∈ unbPgidsKids kids, x ∈ (kids.map (fun p => matPgids fuel p.2)).flatten
+  | [], _, _, _, _, _, _, _ => by simp [unbPgidsKids]
+  | (s, c) :: r, fuel, pmat, bd, hi, d, hk, hf => by
+    intro x hx
+    rw [rbKids_cons'] at hk
+    rw [unbPgidsKids_cons] at hx
+    simp only [List.map_cons, List.flatten_cons, List.mem_append]
+    rcases List.mem_append.mp hx with hx | hx
+    · exact Or.inl (unb_sub_mat c fuel _ _ _ _ hk.2.2.1 (by rw [hk.2.1]; exact hf) x hx)
+    · exact Or.inr (unbKids_sub_mat r fuel _ _ _ _ hk.2.2.2 hf x hx)
+end
+
+theorem findMat_none {pg : Nat} : ∀ {fuel : Nat} {t : N}, findMat pg fuel t = none → pg ∉ matPgids fuel t
+  | 0, t, _ => by simp [matPgids]
+  | fuel+1, t, h => by
+    unfold findMat at h
+    unfold matPgids
+    by_cases h1 : t.hd.mat = true ∧ t.hd.pgid = pg
+    · rw [if_pos h1] at h; cases h
+    · rw [if_neg h1] at h
+      by_cases h2 : (!t.hd.mat) = true
+      · rw [if_pos h2]; simp
+      · rw [if_neg h2] at h ⊢
+        have hm : t.hd.mat = true := by simpa using h2
+        have hne : t.hd.pgid ≠ pg := fun h => h1 ⟨hm, h⟩
+        cases t with
+        | leaf hd items => simpa using fun h => hne h.symm
+        | branch hd kids =>
+          simp only [List.mem_cons, not_or]
+          refine ⟨fun h => hne h.symm, ?_⟩
+          simp only at h
+          rw [List.findSome?_eq_none_iff] at h
+          intro hmem
+          simp only [List.mem_flatten, List.mem_map] at hmem
+          obtain ⟨l, ⟨p, hp, rfl⟩, hx⟩ := hmem
+          obtain ⟨i, hi, hget⟩ := List.getElem_of_mem hp
+          have := h i (List.mem_range.mpr hi)
+          rw [List.getElem?_eq_getElem hi, hget] at this
+          obtain ⟨s, c⟩ := p
+          simp only [Option.map_eq_none_iff] at this
+          exact findMat_none this hx
+
+theorem settles_aux (th fuel : Nat) : ∀ (order : List Nat) (t t' : N), InTxR t → (pgids t).Nodup →
+    depth t ≤ fuel → (∀ x ∈ unbPgids t, x ∈ order) → rebalanceAll th fuel t order = some t' →
+    unbPgids t' = []
+  | [], t, t', _, _, _, hc, hr => by
+    simp only [rebalanceAll, Option.some.injEq] at hr
+    subst hr
+    exact List.eq_nil_iff_forall_not_mem.mpr (fun x hx => by simpa using hc x hx)
+  | pg :: rest, t, t', hi, hn, hf, hc, hr => by
+    rw [rebalanceAll] at hr
+    cases hfm : findMat pg fuel t with
+    | none =>
+      rw [hfm] at hr
+      have hnm := findMat_none hfm
+      have hnu : pg ∉ unbPgids t := fun h => hnm (unb_sub_mat t fuel _ _ _ _ ((inTxR_iff t).mp hi) hf pg h)
+      refine settles_aux th fuel rest t t' hi hn hf (fun x hx => ?_) hr
+      rcases List.mem_cons.mp (hc x hx) with rfl | h
+      · exact absurd hx hnu
+      · exact h
+    | some path =>
+      rw [hfm] at hr
+      obtain ⟨n, hn1, _, hn3⟩ := findMat_nodeAt hfm
+      obtain ⟨t1, h1, h2, _, h4⟩ := rebalanceAt_ok th t path n hi hn1
+      simp only [h1] at hr
+      obtain ⟨s1, s2, s3⟩ := rebalanceAt_step hn1 hn3 hn h1
+      refine settles_aux th fuel rest t1 t' h2 (List.Nodup.sublist s1 hn) (Nat.le_trans h4 hf) (fun x hx => ?_) hr
+      rcases List.mem_cons.mp (hc x (s2 x hx)) with rfl | h
+      · exact absurd hx s3
+      · exact h
+
+theorem settles (th fuel : Nat) (t t' : N) (order : List Nat) (hi : InTxR t)
+    (hn : (pgids t).Nodup) (hf : depth t ≤ fuel)
+    (hc : ∀ pg ∈ matPgids fuel t, pg ∈ order)
+    (hr : rebalanceAll th fuel t order = some t') : anyUnb t' = false :=
+  anyUnb_of_nil t' (settles_aux th fuel order t t' hi hn hf
+    (fun x hx => hc x (unb_sub_mat t fuel _ _ _ _ ((inTxR_iff t).mp hi) hf x hx)) hr)
+
+/-! ### the rebalance-phase invariant implies the in-transaction invariant -/
+
+theorem inTxN_leaf (root pmat : Bool) (lo hi : Option Bytes) (h : Hd) (items : List Item) :
+    inTxN root pmat lo hi (.leaf h items) = true ↔ LeafOk root pmat lo hi h items := by
+  rw [← rbN_leaf, inTxN, rbN]
+
+theorem inTxKids_cons (pmat : Bool) (lo hi : Option Bytes) (s : Bytes) (c : N) (r : List (Bytes × N)) (d : Nat) :
+    inTxKids pmat lo hi ((s, c) :: r) d = true ↔
+      s = ckey c ∧ depth c = d ∧ inTxN false pmat lo (hiOf r hi) c = true ∧
+      inTxKids pmat (r.head?.map (·.1)) hi r d = true := by
+  rw [inTxKids]
+  simp only [Bool.and_eq_true, beq_iff_eq, ckey, hiOf, and_assoc]
+
+theorem inTxN_branch (root pmat : Bool) (lo hi : Option Bytes) (h : Hd) (kids : List (Bytes × N)) :
+    inTxN root pmat lo hi (.branch h kids) = true ↔
+      FlagsOk pmat h ∧ 2 ≤ kids.length ∧ Srt (kids.map (·.1)) ∧ (∀ p ∈ kids, Bnd lo hi p.1) ∧
+      inTxKids h.mat lo hi kids ((kids.head?.map (fun p => depth p.2)).getD 0) = true := by
+  rw [inTxN]
+  simp only [Bool.and_eq_true, flagsOk_iff, sortedKeys_iff, List.all_eq_true, bnd_iff, decide_eq_true_eq]
+  constructor
+  · rintro ⟨⟨⟨⟨h1, h2⟩, h3⟩, h4⟩, h5⟩
+    exact ⟨h1, h2, h3, h4, h5⟩
+  · rintro ⟨h1, h2, h3, h4, h5⟩
+    exact ⟨⟨⟨⟨h1, h2⟩, h3⟩, h4⟩, h5⟩
+
+def LoLe (lo' lo : Option Bytes) : Prop := ∀ k, geLo lo k = true → geLo lo' k = true
+
+theorem LoLe.refl (lo : Option Bytes) : LoLe lo lo := fun _ h => h
+
+theorem Bnd.lo_le {lo lo' hi : Option Bytes} {k : Bytes} (hl : LoLe lo' lo) (h : Bnd lo hi k) : Bnd lo' hi k :=
+  ⟨h.1, hl _ h.2.1, h.2.2⟩
+
+mutual
+theorem inTxN_of_rbN : ∀ (n : N) (root pmat : Bool) (lo lo' hi : Option Bytes), LoLe lo' lo →
+    rbN root pmat lo hi n = true → inTxN root pmat lo' hi n = true
+  | .leaf h items, root, pmat, lo, lo', hi, hl, hn => by
+    rw [rbN_leaf] at hn
+    rw [inTxN_leaf]
+    exact ⟨hn.fl, hn.ne, hn.srt, fun i hi => (hn.bnd i hi).lo_le hl⟩
+  | .branch h kids, root, pmat, lo, lo', hi, hl, hn => by
+    rw [rbN_branch] at hn
+    rw [inTxN_branch]
+    obtain ⟨d, hk⟩ := hn.kids
+    refine ⟨hn.fl, hn.len, hn.srt, fun p hp => (hn.bnd p hp).lo_le hl, ?_⟩
+    have hd : (kids.head?.map (fun p => depth p.2)).getD 0 = d := by
+      cases kids with
+      | nil => have := hn.len; simp at this
+      | cons x r => obtain ⟨s, c⟩ := x; simpa using ((rbKids_cons' ..).mp hk).2.1
+    rw [hd]
+    refine inTxKids_of_rbKids kids _ _ _ _ _ ?_ hk
+    intro s c r he
+    cases lo with
+    | none => simpa using hl
+    | some l =>
+      simp only [Option.isSome_some, if_true]
+      intro k hk
+      have hs : geLo (some l) s = true := (hn.bnd (s, c) (by rw [he]; exact List.mem_cons_self ..)).2.1
+      refine geLo_of_ble (hl _ hs) ?_
+      rw [geLo_some] at hk
+      unfold Ble
+      cases hks : Bytes.lt k s with
+      | false => rfl
+      | true => rw [hks] at hk; exact absurd hk (by decide)
+theorem inTxKids_of_rbKids : ∀ (kids : List (Bytes × N)) (pmat bd : Bool) (lo' hi : Option Bytes) (d : Nat),
+    (∀ s c r, kids = (s, c) :: r → LoLe lo' (if bd = true then some s else none)) →
+    rbKids pmat bd hi kids d = true → inTxKids pmat lo' hi kids d = true
+  | [], _, _, _, _, _, _, _ => by rw [inTxKids]
+  | (s, c) :: r, pmat, bd, lo', hi, d, hfirst, hk => by
+    rw [rbKids_cons'] at hk
+    rw [inTxKids_cons]
+    refine ⟨hk.1, hk.2.1, inTxN_of_rbN c _ _ _ _ _ (hfirst s c r rfl) hk.2.2.1, ?_⟩
+    refine inTxKids_of_rbKids r _ true _ _ _ ?_ hk.2.2.2
+    intro s' c' r' he
+    subst he
+    exact LoLe.refl _
+end
+
+theorem inTx_of_inTxR (t : N) (h : InTxR t) : InTx t :=
+  inTxN_of_rbN t _ _ _ _ _ (LoLe.refl _) ((inTxR_iff t).mp h)
+
+/-! ### `Put`/`Delete` never touch a separator: from a committed tree they produce trees that
+satisfy the rebalance-phase invariant -/
+
+theorem tightN_leaf (lo : Option Bytes) (h : Hd) (items : List Item) : tightN lo (.leaf h items) = true := by
+  unfold tightN; rfl
+
+theorem tightN_branch (lo : Option Bytes) (h : Hd) (kids : List (Bytes × N)) :
+    tightN lo (.branch h kids) = true ↔
+      (∀ l, lo = some l → kids.head?.map (·.1) = some l) ∧ tightKids lo kids = true := by
+  unfold tightN
+  cases lo with
+  | none => simp
+  | some l => simp
+
+theorem tightKids_cons (lo : Option Bytes) (s : Bytes) (c : N) (r : List (Bytes × N)) :
+    tightKids lo ((s, c) :: r) = true ↔ tightN lo c = true ∧ tightKids (r.head?.map (·.1)) r = true := by
+  rw [tightKids]; simp
+
+mutual
+theorem rbN_of_inTxN_tight : ∀ (n : N) (root pmat : Bool) (lo hi : Option Bytes),
+    inTxN root pmat lo hi n = true → tightN lo n = true → rbN root pmat lo hi n = true
+  | .leaf h items, root, pmat, lo, hi, hn, _ => by
+    rw [inTxN_leaf] at hn; rw [rbN_leaf]; exact hn
+  | .branch h kids, root, pmat, lo, hi, hn, ht => by
+    rw [inTxN_branch] at hn
+    rw [tightN_branch] at ht
+    rw [rbN_branch]
+    exact ⟨hn.1, hn.2.1, hn.2.2.1, hn.2.2.2.1, _, rbKids_of_inTxKids_tight kids _ _ _ _ hn.2.2.2.2 ht.2 ht.1⟩
+theorem rbKids_of_inTxKids_tight : ∀ (kids : List (Bytes × N)) (pmat : Bool) (lo hi : Option Bytes) (d : Nat),
+    inTxKids pmat lo hi kids d = true → tightKids lo kids = true →
+    (∀ l, lo = some l → kids.head?.map (·.1) = some l) → rbKids pmat lo.isSome hi kids d = true
+  | [], _, _, _, _, _, _, _ => rbKids_nil ..
+  | (s, c) :: r, pmat, lo, hi, d, hk, ht, hh => by
+    rw [inTxKids_cons] at hk
+    rw [tightKids_cons] at ht
+    rw [rbKids_cons']
+    refine ⟨hk.1, hk.2.1, ?_, ?_⟩
+    · have := rbN_of_inTxN_tight c _ _ _ _ hk.2.2.1 ht.1
+      cases lo with
+      | none => simpa using this
+      | some l =>
+        have hs := hh l rfl
+        simp only [List.head?_cons, Option.map_some, Option.some.injEq] at hs
+        subst hs
+        simpa using this
+    · have := rbKids_of_inTxKids_tight r _ _ _ _ hk.2.2.2 ht.2 (fun l h => h)
+      cases r with
+      | nil => exact rbKids_nil ..
+      | cons x r' => simpa using this
+end
+
+theorem inTxR_of_inTx_tight (t : N) (h : InTx t) (ht : tightN none t = true) : InTxR t :=
+  (inTxR_iff t).mpr (rbN_of_inTxN_tight t _ _ _ _ h ht)
+
+mutual
+theorem tight_of_committed : ∀ (n : N) (root : Bool) (lo : Option Bytes), committedN root n = true →
+    (∀ l, lo = some l → n.firstKey = l) → tightN lo n = true
+  | .leaf h items, _, lo, _, _ => tightN_leaf ..
+  | .branch h kids, root, lo, hc, hf => by
+    rw [committedN] at hc
+    simp only [Bool.and_eq_true, decide_eq_true_eq] at hc
+    rw [tightN_branch]
+    have hh : ∀ l, lo = some l → kids.head?.map (·.1) = some l := by
+      intro l hl
+      have := hf l hl
+      cases kids with
+      | nil => have := hc.1.1.2; simp at this
+      | cons x r => simpa [N.firstKey] using this
+    exact ⟨hh, tightKids_of_committed kids lo _ hc.2 hh⟩
+theorem tightKids_of_committed : ∀ (kids : List (Bytes × N)) (lo : Option Bytes) (d : Nat),
+    committedKids kids d = true → (∀ l, lo = some l → kids.head?.map (·.1) = some l) → tightKids lo kids = true
+  | [], _, _, _, _ => by rw [tightKids]
+  | (s, c) :: r, lo, d, hc, hh => by
+    rw [committedKids] at hc
+    simp only [Bool.and_eq_true, beq_iff_eq] at hc
+    rw [tightKids_cons]
+    refine ⟨tight_of_committed c false lo hc.1.2 ?_, tightKids_of_committed r _ d hc.2 (fun l h => h)⟩
+    intro l hl
+    have := hh l hl
+    simp only [List.head?_cons, Option.map_some, Option.some.injEq] at this
+    rw [← hc.1.1.1, this]
+end
+
+theorem head_set_fst : ∀ (r : List (Bytes × N)) (i : Nat) (s : Bytes) (c c' : N), r[i]? = some (s, c) →
+    (r.set i (s, c')).head?.map (·.1) = r.head?.map (·.1)
+  | [], _, _, _, _, h => by simp at h
+  | x :: r, 0, s, c, c', h => by
+    simp only [List.getElem?_cons_zero, Option.some.injEq] at h; subst h; simp
+  | x :: r, i+1, s, c, c', _ => by simp
+
+theorem tightKids_set : ∀ (kids : List (Bytes × N)) (lo : Option Bytes) (i : Nat) (s : Bytes) (c c' : N),
+    tightKids lo kids = true → kids[i]? = some (s, c) →
+    (∀ lo_c, tightN lo_c c = true → tightN lo_c c' = true) → tightKids lo (kids.set i (s, c')) = true
+  | [], _, _, _, _, _, _, h, _ => by simp at h
+  | x :: r, lo, 0, s, c, c', ht, h, hc => by
+    simp only [List.getElem?_cons_zero, Option.some.injEq] at h; subst h
+    rw [List.set_cons_zero, tightKids_cons]
+    rw [tightKids_cons] at ht
+    exact ⟨hc _ ht.1, ht.2⟩
+  | (s0, c0) :: r, lo, i+1, s, c, c', ht, h, hc => by
+    simp only [List.getElem?_cons_succ] at h
+    rw [List.set_cons_succ, tightKids_cons, head_set_fst r i s c c' h]
+    rw [tightKids_cons] at ht
+    exact ⟨ht.1, tightKids_set r _ i s c c' ht.2 h hc⟩
+
+theorem modifyAt_tight {f : N → Option N} (hf : ∀ x x', f x = some x' → ∃ h items, x' = .leaf h items) :
+    ∀ (path : List Nat) (n n' : N), modifyAt f path n = some n' → ∀ lo, tightN lo n = true → tightN lo n' = true
+  | [], n, n', h, lo, _ => by
+    rw [modifyAt] at h
+    obtain ⟨hd, items, rfl⟩ := hf _ _ h
+    exact tightN_leaf ..
+  | i :: rest, .leaf hd items, n', h, lo, _ => by
+    rw [modifyAt, materialize_eq] at h
+    simp at h
+  | i :: rest, .branch hd kids, n', h, lo, ht => by
+    rw [modifyAt, materialize_eq] at h
+    simp only [setHd_branch] at h
+    cases hk : kids[i]? with
+    | none => rw [hk] at h; simp at h
+    | some sc =>
+      obtain ⟨s, c⟩ := sc
+      rw [hk] at h
+      simp only [Option.map_eq_some_iff] at h
+      obtain ⟨c', hc', rfl⟩ := h
+      rw [tightN_branch] at ht ⊢
+      refine ⟨?_, tightKids_set kids lo i s c c' ht.2 hk (fun lo_c => modifyAt_tight hf rest c c' hc' lo_c)⟩
+      rw [head_set_fst kids i s c c' hk]
+      exact ht.1
+
+theorem leafPut_leaf (k v : Bytes) : ∀ x x', leafPut k v x = some x' → ∃ h items, x' = .leaf h items := by
+  intro x x' h
+  cases x with
+  | leaf hd items =>
+    simp only [leafPut] at h
+    split at h <;> (simp only [Option.some.injEq] at h; exact ⟨_, _, h.symm⟩)
+  | branch hd kids => simp [leafPut] at h
+
+theorem leafDel_leaf (k : Bytes) : ∀ x x', leafDel k x = some x' → ∃ h items, x' = .leaf h items := by
+  intro x x' h
+  cases x with
+  | leaf hd items =>
+    simp only [leafDel] at h
+    split at h <;> (simp only [Option.some.injEq] at h; exact ⟨_, _, h.symm⟩)
+  | branch hd kids => simp [leafDel] at h
+
+theorem applyOp_tight {fuel : Nat} {t t' : N} {o : Op} (h : applyOp fuel t o = some t')
+    (ht : tightN none t = true) : tightN none t' = true := by
+  cases o with
+  | put k v =>
+    simp only [applyOp, putT] at h
+    split at h
+    · split at h
+      · simp only [Option.some.injEq] at h; subst h; exact ht
+      · exact modifyAt_tight (leafPut_leaf k v) _ _ _ h _ ht
+    · exact modifyAt_tight (leafPut_leaf k v) _ _ _ h _ ht
+  | del k =>
+    simp only [applyOp, delT] at h
+    split at h
+    · split at h
+      · exact modifyAt_tight (leafDel_leaf k) _ _ _ h _ ht
+      · simp only [Option.some.injEq] at h; subst h; exact ht
+    · simp only [Option.some.injEq] at h; subst h; exact ht
+
+theorem applyOps_tight {fuel : Nat} : ∀ (ops : List Op) (t t' : N), applyOps fuel t ops = some t' →
+    tightN none t = true → tightN none t' = true
+  | [], t, t', h, ht => by
+    simp only [applyOps, Option.some.injEq] at h; subst h; exact ht
+  | o :: os, t, t', h, ht => by
+    rw [applyOps] at h
+    cases ho : applyOp fuel t o with
+    | none => rw [ho] at h; simp at h
+    | some t1 =>
+      rw [ho] at h
+      simp only [Option.bind_some] at h
+      exact applyOps_tight os t1 t' h (applyOp_tight ho ht)
+
+/-! ### counterexample to the first version of `rebalanceAt_refines` (hypothesis `InTx t` only)
+
+`cexX` is bounded below by its separator `[5]`; its first child is filed under `[7]` but holds
+the key `[6]` — `inTxN` admits that (the first child inherits the bound `[5]`), no transaction
+produces it.  Rebalancing `cexX` merges it into its left sibling: the child lands in the middle
+of the merged inodes, the key `[6]` is now below its separator `[7]` (unreachable), and `InTx`
+fails for the result.  `InTxR` rejects `cexT`. -/
+
+def cexLeaf (pg : Nat) (mat : Bool) (key : Bytes) (ks : List Bytes) : N :=
+  .leaf { pgid := pg, mat := mat, unb := false, key := key } (ks.map (fun k => { key := k, val := [], flags := 0 }))
+
+def cexW : N := .branch { pgid := 2, mat := false, unb := false, key := [] }
+  [([1], cexLeaf 4 false [] [[1]]), ([3], cexLeaf 5 false [] [[3]])]
+def cexX : N := .branch { pgid := 3, mat := true, unb := true, key := [5] }
+  [([7], cexLeaf 6 true [7] [[6], [7]]), ([9], cexLeaf 7 false [] [[9]])]
+def cexT : N := .branch { pgid := 1, mat := true, unb := false, key := [] } [([1], cexW), ([5], cexX)]
+
+example : InTx cexT ∧ ¬ InTxR cexT ∧
+    ∃ t', rebalanceAt 1000 cexT [1] = some t' ∧ ¬ InTx t' := by
+  refine ⟨by decide, by decide, _, rfl, by decide⟩
 
 end Bolt.BTree.RebL
